@@ -21,17 +21,9 @@
 (***************************************************************************)
 EXTENDS Integers, Sequences, FiniteSets, TLC
 
-CONSTANTS CFG,        \* scenario record (see gen_mc in /verif/check)
+CONSTANTS CFGS,       \* sequence of scenario records (see write_mc in /verif/vlib/tlc.py); the
+                      \* variable ci picks one of them in the initial state
           KeepObs     \* record obs/script histories (FALSE in threaded configurations)
-
-N        == Len(CFG.nodes)
-Node(n)  == CFG.nodes[n]
-Kind(n)  == Node(n).kind
-Ups(n)   == Node(n).ups
-NSinks   == Len(CFG.sinks)
-MaxData  == CFG.maxData
-MaxTop   == CFG.maxTop
-MaxPull  == CFG.maxPull
 
 NoRef          == [n |-> 0, r |-> "none", s |-> 0, i |-> 0]
 Ref(n, r, s, i) == [n |-> n, r |-> r, s |-> s, i |-> i]
@@ -56,41 +48,11 @@ GenList(g, x) == CASE g = "rep" -> <<x, x>>
                    [] g = "upto" -> [q \in 1..(IF x < 0 THEN 0 ELSE IF x > 3 THEN 3 ELSE x) |-> q]
                    [] g = "oddonly" -> IF x % 2 = 1 THEN <<x>> ELSE <<>>
 
-\* per-subscription state created in the Handshake branch of each operator
-InitSt(n, sink) ==
-  LET k == Kind(n) IN
-  CASE k = "map"     -> [sink |-> sink, utb |-> NoRef]
-    [] k = "filter"  -> [sink |-> sink, utb |-> NoRef]
-    [] k = "scan"    -> [sink |-> sink, utb |-> NoRef, acc |-> Node(n).seed]
-    [] k = "take"    -> [sink |-> sink, utb |-> NoRef, taken |-> 0, end |-> FALSE]
-    [] k = "skip"    -> [sink |-> sink, utb |-> NoRef, skipped |-> 0]
-    [] k = "merge"   -> [sink |-> sink, tbs |-> [q \in 1..Len(Ups(n)) |-> NoRef],
-                         start |-> 0, endc |-> 0, ended |-> FALSE]
-    [] k = "concat"  -> [sink |-> sink, utb |-> NoRef, i |-> 0, gotpull |-> FALSE]
-    [] k = "combine" -> [sink |-> sink, tbs |-> [q \in 1..Len(Ups(n)) |-> NoRef],
-                         nstart |-> Len(Ups(n)), ndata |-> Len(Ups(n)), nend |-> Len(Ups(n)),
-                         has |-> [q \in 1..Len(Ups(n)) |-> FALSE],
-                         vals |-> [q \in 1..Len(Ups(n)) |-> 0]]
-    [] k \in {"flatten", "flatmap"} -> [sink |-> sink, otb |-> NoRef, itb |-> NoRef]
-    [] k = "share"   -> [sink |-> sink]
-    [] k = "interval" -> [sink |-> sink, cnt |-> 0, cleared |-> FALSE]
-    [] OTHER -> [sink |-> sink]
-
 \* a from_iter subscription: the iterator (items / unbounded 1,2,3..), its name for `next` events
 \* ("" = not instrumented) and the flags of from_iter.rs:115-120
 NewFi(sink, items, unb, lim, name) ==
   [node |-> 0, sink |-> sink, items |-> items, unbounded |-> unb, limit |-> lim, name |-> name, pos |-> 0,
    inloop |-> FALSE, gotpull |-> FALSE, completed |-> FALSE, resdone |-> FALSE]
-
-InitNd(n) == IF Kind(n) = "share" THEN [sinks |-> <<>>, utb |-> NoRef] ELSE [x |-> 0]
-
-IsPuppet(n) == Kind(n) \in {"puppet", "puppet_outer"}
-NodeOfPid(p) == CHOOSE n \in 1..N : IsPuppet(n) /\ Node(n).pid = p
-PupMode(p) == Node(NodeOfPid(p)).mode
-PupLate(p) == Node(NodeOfPid(p)).late
-
-IsEnvRef(r) == r.r \in {"K", "ptb"} \/ (r.r = "src" /\ r.n > 0 /\ IsPuppet(r.n))
-SinkKind(k) == CFG.sinks[k]
 
 RemoveAt(sq, i) == SubSeq(sq, 1, i - 1) \o SubSeq(sq, i + 1, Len(sq))
 IndexOf(sq, x) == IF \E i \in 1..Len(sq) : sq[i] = x
@@ -109,6 +71,7 @@ OpenCount(o, i, acc) ==
 (* --algorithm Callbag {
 
 variables
+  ci \in 1..Len(CFGS),                 \* which scenario this behaviour belongs to (never changes)
   st = [n \in 1..N |-> <<>>],          \* per-subscription operator state
   nd = [n \in 1..N |-> InitNd(n)],     \* per-node state (share)
   sk = [k \in 1..NSinks |-> [attached |-> FALSE, greeted |-> FALSE, ended |-> FALSE,
@@ -124,6 +87,49 @@ variables
   done = FALSE;
 
 define {
+  CFG      == CFGS[ci]
+  N        == Len(CFG.nodes)
+  Node(n)  == CFG.nodes[n]
+  Kind(n)  == Node(n).kind
+  Ups(n)   == Node(n).ups
+  NSinks   == Len(CFG.sinks)
+  MaxData  == CFG.maxData
+  MaxTop   == CFG.maxTop
+  MaxPull  == CFG.maxPull
+  
+  
+  \* per-subscription state created in the Handshake branch of each operator
+  InitSt(n, sink) ==
+    LET k == Kind(n) IN
+    CASE k = "map"     -> [sink |-> sink, utb |-> NoRef]
+      [] k = "filter"  -> [sink |-> sink, utb |-> NoRef]
+      [] k = "scan"    -> [sink |-> sink, utb |-> NoRef, acc |-> Node(n).seed]
+      [] k = "take"    -> [sink |-> sink, utb |-> NoRef, taken |-> 0, end |-> FALSE]
+      [] k = "skip"    -> [sink |-> sink, utb |-> NoRef, skipped |-> 0]
+      [] k = "merge"   -> [sink |-> sink, tbs |-> [q \in 1..Len(Ups(n)) |-> NoRef],
+                           start |-> 0, endc |-> 0, ended |-> FALSE]
+      [] k = "concat"  -> [sink |-> sink, utb |-> NoRef, i |-> 0, gotpull |-> FALSE]
+      [] k = "combine" -> [sink |-> sink, tbs |-> [q \in 1..Len(Ups(n)) |-> NoRef],
+                           nstart |-> Len(Ups(n)), ndata |-> Len(Ups(n)), nend |-> Len(Ups(n)),
+                           has |-> [q \in 1..Len(Ups(n)) |-> FALSE],
+                           vals |-> [q \in 1..Len(Ups(n)) |-> 0]]
+      [] k \in {"flatten", "flatmap"} -> [sink |-> sink, otb |-> NoRef, itb |-> NoRef]
+      [] k = "share"   -> [sink |-> sink]
+      [] k = "interval" -> [sink |-> sink, cnt |-> 0, cleared |-> FALSE]
+      [] OTHER -> [sink |-> sink]
+  
+  
+  InitNd(n) == IF Kind(n) = "share" THEN [sinks |-> <<>>, utb |-> NoRef] ELSE [x |-> 0]
+  
+  IsPuppet(n) == Kind(n) \in {"puppet", "puppet_outer"}
+  NodeOfPid(p) == CHOOSE n \in 1..N : IsPuppet(n) /\ Node(n).pid = p
+  PupMode(p) == Node(NodeOfPid(p)).mode
+  PupLate(p) == Node(NodeOfPid(p)).late
+  
+  IsEnvRef(r) == r.r \in {"K", "ptb"} \/ (r.r = "src" /\ r.n > 0 /\ IsPuppet(r.n))
+  SinkKind(k) == CFG.sinks[k]
+  
+  
   LogO(o, e) == IF KeepObs THEN Append(o, e) ELSE o
   LogS(s, e) == IF KeepObs THEN Append(s, e) ELSE s
 
@@ -1277,10 +1283,53 @@ MDone:
 } *)
 \* BEGIN TRANSLATION
 CONSTANT defaultInitValue
-VARIABLES pc, st, nd, sk, pi, fi, tasks, now, obs, script, ntop, panicked, 
+VARIABLES pc, ci, st, nd, sk, pi, fi, tasks, now, obs, script, ntop, panicked, 
           done, stack
 
 (* define statement *)
+CFG      == CFGS[ci]
+N        == Len(CFG.nodes)
+Node(n)  == CFG.nodes[n]
+Kind(n)  == Node(n).kind
+Ups(n)   == Node(n).ups
+NSinks   == Len(CFG.sinks)
+MaxData  == CFG.maxData
+MaxTop   == CFG.maxTop
+MaxPull  == CFG.maxPull
+
+
+
+InitSt(n, sink) ==
+  LET k == Kind(n) IN
+  CASE k = "map"     -> [sink |-> sink, utb |-> NoRef]
+    [] k = "filter"  -> [sink |-> sink, utb |-> NoRef]
+    [] k = "scan"    -> [sink |-> sink, utb |-> NoRef, acc |-> Node(n).seed]
+    [] k = "take"    -> [sink |-> sink, utb |-> NoRef, taken |-> 0, end |-> FALSE]
+    [] k = "skip"    -> [sink |-> sink, utb |-> NoRef, skipped |-> 0]
+    [] k = "merge"   -> [sink |-> sink, tbs |-> [q \in 1..Len(Ups(n)) |-> NoRef],
+                         start |-> 0, endc |-> 0, ended |-> FALSE]
+    [] k = "concat"  -> [sink |-> sink, utb |-> NoRef, i |-> 0, gotpull |-> FALSE]
+    [] k = "combine" -> [sink |-> sink, tbs |-> [q \in 1..Len(Ups(n)) |-> NoRef],
+                         nstart |-> Len(Ups(n)), ndata |-> Len(Ups(n)), nend |-> Len(Ups(n)),
+                         has |-> [q \in 1..Len(Ups(n)) |-> FALSE],
+                         vals |-> [q \in 1..Len(Ups(n)) |-> 0]]
+    [] k \in {"flatten", "flatmap"} -> [sink |-> sink, otb |-> NoRef, itb |-> NoRef]
+    [] k = "share"   -> [sink |-> sink]
+    [] k = "interval" -> [sink |-> sink, cnt |-> 0, cleared |-> FALSE]
+    [] OTHER -> [sink |-> sink]
+
+
+InitNd(n) == IF Kind(n) = "share" THEN [sinks |-> <<>>, utb |-> NoRef] ELSE [x |-> 0]
+
+IsPuppet(n) == Kind(n) \in {"puppet", "puppet_outer"}
+NodeOfPid(p) == CHOOSE n \in 1..N : IsPuppet(n) /\ Node(n).pid = p
+PupMode(p) == Node(NodeOfPid(p)).mode
+PupLate(p) == Node(NodeOfPid(p)).late
+
+IsEnvRef(r) == r.r \in {"K", "ptb"} \/ (r.r = "src" /\ r.n > 0 /\ IsPuppet(r.n))
+SinkKind(k) == CFG.sinks[k]
+
+
 LogO(o, e) == IF KeepObs THEN Append(o, e) ELSE o
 LogS(s, e) == IF KeepObs THEN Append(s, e) ELSE s
 
@@ -1335,13 +1384,14 @@ ThOf(slf) == slf
 VARIABLES fr, to, m, lg, sx, jx, ch, lv, snap, ka, ca, gx, ex, nx, fx, bx, bc, 
           tx, ta, tc, ft, act, sj
 
-vars == << pc, st, nd, sk, pi, fi, tasks, now, obs, script, ntop, panicked, 
-           done, stack, fr, to, m, lg, sx, jx, ch, lv, snap, ka, ca, gx, ex, 
-           nx, fx, bx, bc, tx, ta, tc, ft, act, sj >>
+vars == << pc, ci, st, nd, sk, pi, fi, tasks, now, obs, script, ntop, 
+           panicked, done, stack, fr, to, m, lg, sx, jx, ch, lv, snap, ka, ca, 
+           gx, ex, nx, fx, bx, bc, tx, ta, tc, ft, act, sj >>
 
 ProcSet == {0}
 
 Init == (* Global variables *)
+        /\ ci \in 1..Len(CFGS)
         /\ st = [n \in 1..N |-> <<>>]
         /\ nd = [n \in 1..N |-> InitNd(n)]
         /\ sk = [k \in 1..NSinks |-> [attached |-> FALSE, greeted |-> FALSE, ended |-> FALSE,
@@ -1419,7 +1469,7 @@ DStart(self) == /\ pc[self] = "DStart"
                                                                                        lg >>
                            /\ UNCHANGED << pi, sx >>
                 /\ pc' = [pc EXCEPT ![self] = "DDisp"]
-                /\ UNCHANGED << st, nd, sk, fi, tasks, now, script, ntop, 
+                /\ UNCHANGED << ci, st, nd, sk, fi, tasks, now, script, ntop, 
                                 panicked, done, stack, fr, to, m, jx, ch, lv, 
                                 snap, ka, ca, gx, ex, nx, fx, bx, bc, tx, ta, 
                                 tc, ft, act, sj >>
@@ -3089,7 +3139,7 @@ DDisp(self) == /\ pc[self] = "DDisp"
                                                                                                                                                                                                                                      sx, 
                                                                                                                                                                                                                                      ch >>
                                                                                                                                                                                                      ELSE /\ Assert(FALSE, 
-                                                                                                                                                                                                                    "Failure of assertion at line 1070, column 5.")
+                                                                                                                                                                                                                    "Failure of assertion at line 1076, column 5.")
                                                                                                                                                                                                           /\ pc' = [pc EXCEPT ![self] = "Ret"]
                                                                                                                                                                                                           /\ UNCHANGED << st, 
                                                                                                                                                                                                                           tasks, 
@@ -3110,8 +3160,8 @@ DDisp(self) == /\ pc[self] = "DDisp"
                                                                                  /\ fi' = fi
                                                            /\ sk' = sk
                                                 /\ pi' = pi
-               /\ UNCHANGED << now, ntop, done, ka, ca, gx, ex, nx, fx, bx, bc, 
-                               tx, ta, tc, ft, act, sj >>
+               /\ UNCHANGED << ci, now, ntop, done, ka, ca, gx, ex, nx, fx, bx, 
+                               bc, tx, ta, tc, ft, act, sj >>
 
 K1(self) == /\ pc[self] = "K1"
             /\ IF m[self].t \in {"H", "D"} /\ SinkLive(to[self].s) /\ sk[to[self].s].tb # NoRef
@@ -3121,7 +3171,7 @@ K1(self) == /\ pc[self] = "K1"
                        /\ pc' = [pc EXCEPT ![self] = "K2"]
                   ELSE /\ pc' = [pc EXCEPT ![self] = "K3"]
                        /\ UNCHANGED << script, ch >>
-            /\ UNCHANGED << st, nd, sk, pi, fi, tasks, now, obs, ntop, 
+            /\ UNCHANGED << ci, st, nd, sk, pi, fi, tasks, now, obs, ntop, 
                             panicked, done, stack, fr, to, m, lg, sx, jx, lv, 
                             snap, ka, ca, gx, ex, nx, fx, bx, bc, tx, ta, tc, 
                             ft, act, sj >>
@@ -3135,17 +3185,17 @@ K2(self) == /\ pc[self] = "K2"
                                                         ca        |->  ca[self] ] >>
                                                     \o stack[self]]
             /\ pc' = [pc EXCEPT ![self] = "SA0"]
-            /\ UNCHANGED << st, nd, sk, pi, fi, tasks, now, obs, script, ntop, 
-                            panicked, done, fr, to, m, lg, sx, jx, ch, lv, 
-                            snap, gx, ex, nx, fx, bx, bc, tx, ta, tc, ft, act, 
-                            sj >>
+            /\ UNCHANGED << ci, st, nd, sk, pi, fi, tasks, now, obs, script, 
+                            ntop, panicked, done, fr, to, m, lg, sx, jx, ch, 
+                            lv, snap, gx, ex, nx, fx, bx, bc, tx, ta, tc, ft, 
+                            act, sj >>
 
 K3(self) == /\ pc[self] = "K3"
             /\ pc' = [pc EXCEPT ![self] = "Ret"]
-            /\ UNCHANGED << st, nd, sk, pi, fi, tasks, now, obs, script, ntop, 
-                            panicked, done, stack, fr, to, m, lg, sx, jx, ch, 
-                            lv, snap, ka, ca, gx, ex, nx, fx, bx, bc, tx, ta, 
-                            tc, ft, act, sj >>
+            /\ UNCHANGED << ci, st, nd, sk, pi, fi, tasks, now, obs, script, 
+                            ntop, panicked, done, stack, fr, to, m, lg, sx, jx, 
+                            ch, lv, snap, ka, ca, gx, ex, nx, fx, bx, bc, tx, 
+                            ta, tc, ft, act, sj >>
 
 P1(self) == /\ pc[self] = "P1"
             /\ IF ch[self] = "now"
@@ -3159,7 +3209,7 @@ P1(self) == /\ pc[self] = "P1"
                   ELSE /\ pi' = [pi EXCEPT ![sx[self]].pending = TRUE]
                        /\ pc' = [pc EXCEPT ![self] = "P3"]
                        /\ UNCHANGED << stack, gx >>
-            /\ UNCHANGED << st, nd, sk, fi, tasks, now, obs, script, ntop, 
+            /\ UNCHANGED << ci, st, nd, sk, fi, tasks, now, obs, script, ntop, 
                             panicked, done, fr, to, m, lg, sx, jx, ch, lv, 
                             snap, ka, ca, ex, nx, fx, bx, bc, tx, ta, tc, ft, 
                             act, sj >>
@@ -3173,17 +3223,17 @@ P2(self) == /\ pc[self] = "P2"
                                                     \o stack[self]]
             /\ bc' = [bc EXCEPT ![self] = ""]
             /\ pc' = [pc EXCEPT ![self] = "B0"]
-            /\ UNCHANGED << st, nd, sk, pi, fi, tasks, now, obs, script, ntop, 
-                            panicked, done, fr, to, m, lg, sx, jx, ch, lv, 
-                            snap, ka, ca, gx, ex, nx, fx, tx, ta, tc, ft, act, 
-                            sj >>
+            /\ UNCHANGED << ci, st, nd, sk, pi, fi, tasks, now, obs, script, 
+                            ntop, panicked, done, fr, to, m, lg, sx, jx, ch, 
+                            lv, snap, ka, ca, gx, ex, nx, fx, tx, ta, tc, ft, 
+                            act, sj >>
 
 P3(self) == /\ pc[self] = "P3"
             /\ pc' = [pc EXCEPT ![self] = "Ret"]
-            /\ UNCHANGED << st, nd, sk, pi, fi, tasks, now, obs, script, ntop, 
-                            panicked, done, stack, fr, to, m, lg, sx, jx, ch, 
-                            lv, snap, ka, ca, gx, ex, nx, fx, bx, bc, tx, ta, 
-                            tc, ft, act, sj >>
+            /\ UNCHANGED << ci, st, nd, sk, pi, fi, tasks, now, obs, script, 
+                            ntop, panicked, done, stack, fr, to, m, lg, sx, jx, 
+                            ch, lv, snap, ka, ca, gx, ex, nx, fx, bx, bc, tx, 
+                            ta, tc, ft, act, sj >>
 
 T1(self) == /\ pc[self] = "T1"
             /\ IF ch[self] = "data"
@@ -3220,16 +3270,16 @@ T1(self) == /\ pc[self] = "T1"
                                              /\ UNCHANGED << stack, fx >>
                                   /\ nx' = nx
                        /\ ex' = ex
-            /\ UNCHANGED << st, nd, sk, fi, tasks, now, script, ntop, panicked, 
-                            done, fr, to, m, lg, sx, jx, ch, lv, snap, ka, ca, 
-                            gx, bx, bc, tx, ta, tc, ft, act, sj >>
+            /\ UNCHANGED << ci, st, nd, sk, fi, tasks, now, script, ntop, 
+                            panicked, done, fr, to, m, lg, sx, jx, ch, lv, 
+                            snap, ka, ca, gx, bx, bc, tx, ta, tc, ft, act, sj >>
 
 T2(self) == /\ pc[self] = "T2"
             /\ pc' = [pc EXCEPT ![self] = "Ret"]
-            /\ UNCHANGED << st, nd, sk, pi, fi, tasks, now, obs, script, ntop, 
-                            panicked, done, stack, fr, to, m, lg, sx, jx, ch, 
-                            lv, snap, ka, ca, gx, ex, nx, fx, bx, bc, tx, ta, 
-                            tc, ft, act, sj >>
+            /\ UNCHANGED << ci, st, nd, sk, pi, fi, tasks, now, obs, script, 
+                            ntop, panicked, done, stack, fr, to, m, lg, sx, jx, 
+                            ch, lv, snap, ka, ca, gx, ex, nx, fx, bx, bc, tx, 
+                            ta, tc, ft, act, sj >>
 
 FE1(self) == /\ pc[self] = "FE1"
              /\ /\ fr' = [fr EXCEPT ![self] = IF SinkKind(to[self].s) = "foreach" THEN KName(to[self].s) ELSE "S"]
@@ -3254,16 +3304,16 @@ FE1(self) == /\ pc[self] = "FE1"
              /\ lv' = [lv EXCEPT ![self] = 0]
              /\ snap' = [snap EXCEPT ![self] = <<>>]
              /\ pc' = [pc EXCEPT ![self] = "DStart"]
-             /\ UNCHANGED << st, nd, sk, pi, fi, tasks, now, obs, script, ntop, 
-                             panicked, done, ka, ca, gx, ex, nx, fx, bx, bc, 
-                             tx, ta, tc, ft, act, sj >>
+             /\ UNCHANGED << ci, st, nd, sk, pi, fi, tasks, now, obs, script, 
+                             ntop, panicked, done, ka, ca, gx, ex, nx, fx, bx, 
+                             bc, tx, ta, tc, ft, act, sj >>
 
 FE2(self) == /\ pc[self] = "FE2"
              /\ pc' = [pc EXCEPT ![self] = "Ret"]
-             /\ UNCHANGED << st, nd, sk, pi, fi, tasks, now, obs, script, ntop, 
-                             panicked, done, stack, fr, to, m, lg, sx, jx, ch, 
-                             lv, snap, ka, ca, gx, ex, nx, fx, bx, bc, tx, ta, 
-                             tc, ft, act, sj >>
+             /\ UNCHANGED << ci, st, nd, sk, pi, fi, tasks, now, obs, script, 
+                             ntop, panicked, done, stack, fr, to, m, lg, sx, 
+                             jx, ch, lv, snap, ka, ca, gx, ex, nx, fx, bx, bc, 
+                             tx, ta, tc, ft, act, sj >>
 
 FE3(self) == /\ pc[self] = "FE3"
              /\ IF sk[to[self].s].tb = NoRef
@@ -3296,16 +3346,16 @@ FE3(self) == /\ pc[self] = "FE3"
                         /\ snap' = [snap EXCEPT ![self] = <<>>]
                         /\ pc' = [pc EXCEPT ![self] = "DStart"]
                         /\ UNCHANGED << obs, panicked >>
-             /\ UNCHANGED << st, nd, sk, pi, fi, tasks, now, script, ntop, 
+             /\ UNCHANGED << ci, st, nd, sk, pi, fi, tasks, now, script, ntop, 
                              done, ka, ca, gx, ex, nx, fx, bx, bc, tx, ta, tc, 
                              ft, act, sj >>
 
 FE4(self) == /\ pc[self] = "FE4"
              /\ pc' = [pc EXCEPT ![self] = "Ret"]
-             /\ UNCHANGED << st, nd, sk, pi, fi, tasks, now, obs, script, ntop, 
-                             panicked, done, stack, fr, to, m, lg, sx, jx, ch, 
-                             lv, snap, ka, ca, gx, ex, nx, fx, bx, bc, tx, ta, 
-                             tc, ft, act, sj >>
+             /\ UNCHANGED << ci, st, nd, sk, pi, fi, tasks, now, obs, script, 
+                             ntop, panicked, done, stack, fr, to, m, lg, sx, 
+                             jx, ch, lv, snap, ka, ca, gx, ex, nx, fx, bx, bc, 
+                             tx, ta, tc, ft, act, sj >>
 
 FR1(self) == /\ pc[self] = "FR1"
              /\ /\ fr' = [fr EXCEPT ![self] = "S"]
@@ -3330,16 +3380,16 @@ FR1(self) == /\ pc[self] = "FR1"
              /\ lv' = [lv EXCEPT ![self] = 0]
              /\ snap' = [snap EXCEPT ![self] = <<>>]
              /\ pc' = [pc EXCEPT ![self] = "DStart"]
-             /\ UNCHANGED << st, nd, sk, pi, fi, tasks, now, obs, script, ntop, 
-                             panicked, done, ka, ca, gx, ex, nx, fx, bx, bc, 
-                             tx, ta, tc, ft, act, sj >>
+             /\ UNCHANGED << ci, st, nd, sk, pi, fi, tasks, now, obs, script, 
+                             ntop, panicked, done, ka, ca, gx, ex, nx, fx, bx, 
+                             bc, tx, ta, tc, ft, act, sj >>
 
 FR2(self) == /\ pc[self] = "FR2"
              /\ pc' = [pc EXCEPT ![self] = "Ret"]
-             /\ UNCHANGED << st, nd, sk, pi, fi, tasks, now, obs, script, ntop, 
-                             panicked, done, stack, fr, to, m, lg, sx, jx, ch, 
-                             lv, snap, ka, ca, gx, ex, nx, fx, bx, bc, tx, ta, 
-                             tc, ft, act, sj >>
+             /\ UNCHANGED << ci, st, nd, sk, pi, fi, tasks, now, obs, script, 
+                             ntop, panicked, done, stack, fr, to, m, lg, sx, 
+                             jx, ch, lv, snap, ka, ca, gx, ex, nx, fx, bx, bc, 
+                             tx, ta, tc, ft, act, sj >>
 
 FR3(self) == /\ pc[self] = "FR3"
              /\ IF ~fi[to[self].s].inloop /\ ~fi[to[self].s].resdone
@@ -3347,7 +3397,7 @@ FR3(self) == /\ pc[self] = "FR3"
                         /\ pc' = [pc EXCEPT ![self] = "FR4"]
                    ELSE /\ pc' = [pc EXCEPT ![self] = "FR9"]
                         /\ fi' = fi
-             /\ UNCHANGED << st, nd, sk, pi, tasks, now, obs, script, ntop, 
+             /\ UNCHANGED << ci, st, nd, sk, pi, tasks, now, obs, script, ntop, 
                              panicked, done, stack, fr, to, m, lg, sx, jx, ch, 
                              lv, snap, ka, ca, gx, ex, nx, fx, bx, bc, tx, ta, 
                              tc, ft, act, sj >>
@@ -3368,7 +3418,7 @@ FR4(self) == /\ pc[self] = "FR4"
                         /\ pc' = [pc EXCEPT ![self] = "FR5"]
                    ELSE /\ pc' = [pc EXCEPT ![self] = "FR8"]
                         /\ UNCHANGED << fi, obs, lv >>
-             /\ UNCHANGED << st, nd, sk, pi, tasks, now, script, ntop, 
+             /\ UNCHANGED << ci, st, nd, sk, pi, tasks, now, script, ntop, 
                              panicked, done, stack, fr, to, m, lg, sx, jx, ch, 
                              snap, ka, ca, gx, ex, nx, fx, bx, bc, tx, ta, tc, 
                              ft, act, sj >>
@@ -3419,39 +3469,39 @@ FR5(self) == /\ pc[self] = "FR5"
                         /\ lv' = [lv EXCEPT ![self] = 0]
                         /\ snap' = [snap EXCEPT ![self] = <<>>]
                         /\ pc' = [pc EXCEPT ![self] = "DStart"]
-             /\ UNCHANGED << st, nd, sk, pi, fi, tasks, now, obs, script, ntop, 
-                             panicked, done, ka, ca, gx, ex, nx, fx, bx, bc, 
-                             tx, ta, tc, ft, act, sj >>
+             /\ UNCHANGED << ci, st, nd, sk, pi, fi, tasks, now, obs, script, 
+                             ntop, panicked, done, ka, ca, gx, ex, nx, fx, bx, 
+                             bc, tx, ta, tc, ft, act, sj >>
 
 FR6(self) == /\ pc[self] = "FR6"
              /\ pc' = [pc EXCEPT ![self] = "FR8"]
-             /\ UNCHANGED << st, nd, sk, pi, fi, tasks, now, obs, script, ntop, 
-                             panicked, done, stack, fr, to, m, lg, sx, jx, ch, 
-                             lv, snap, ka, ca, gx, ex, nx, fx, bx, bc, tx, ta, 
-                             tc, ft, act, sj >>
+             /\ UNCHANGED << ci, st, nd, sk, pi, fi, tasks, now, obs, script, 
+                             ntop, panicked, done, stack, fr, to, m, lg, sx, 
+                             jx, ch, lv, snap, ka, ca, gx, ex, nx, fx, bx, bc, 
+                             tx, ta, tc, ft, act, sj >>
 
 FR7(self) == /\ pc[self] = "FR7"
              /\ TRUE
              /\ pc' = [pc EXCEPT ![self] = "FR4"]
-             /\ UNCHANGED << st, nd, sk, pi, fi, tasks, now, obs, script, ntop, 
-                             panicked, done, stack, fr, to, m, lg, sx, jx, ch, 
-                             lv, snap, ka, ca, gx, ex, nx, fx, bx, bc, tx, ta, 
-                             tc, ft, act, sj >>
+             /\ UNCHANGED << ci, st, nd, sk, pi, fi, tasks, now, obs, script, 
+                             ntop, panicked, done, stack, fr, to, m, lg, sx, 
+                             jx, ch, lv, snap, ka, ca, gx, ex, nx, fx, bx, bc, 
+                             tx, ta, tc, ft, act, sj >>
 
 FR8(self) == /\ pc[self] = "FR8"
              /\ fi' = [fi EXCEPT ![to[self].s].inloop = FALSE]
              /\ pc' = [pc EXCEPT ![self] = "FR9"]
-             /\ UNCHANGED << st, nd, sk, pi, tasks, now, obs, script, ntop, 
+             /\ UNCHANGED << ci, st, nd, sk, pi, tasks, now, obs, script, ntop, 
                              panicked, done, stack, fr, to, m, lg, sx, jx, ch, 
                              lv, snap, ka, ca, gx, ex, nx, fx, bx, bc, tx, ta, 
                              tc, ft, act, sj >>
 
 FR9(self) == /\ pc[self] = "FR9"
              /\ pc' = [pc EXCEPT ![self] = "Ret"]
-             /\ UNCHANGED << st, nd, sk, pi, fi, tasks, now, obs, script, ntop, 
-                             panicked, done, stack, fr, to, m, lg, sx, jx, ch, 
-                             lv, snap, ka, ca, gx, ex, nx, fx, bx, bc, tx, ta, 
-                             tc, ft, act, sj >>
+             /\ UNCHANGED << ci, st, nd, sk, pi, fi, tasks, now, obs, script, 
+                             ntop, panicked, done, stack, fr, to, m, lg, sx, 
+                             jx, ch, lv, snap, ka, ca, gx, ex, nx, fx, bx, bc, 
+                             tx, ta, tc, ft, act, sj >>
 
 MP1(self) == /\ pc[self] = "MP1"
              /\ /\ fr' = [fr EXCEPT ![self] = "S"]
@@ -3476,16 +3526,16 @@ MP1(self) == /\ pc[self] = "MP1"
              /\ lv' = [lv EXCEPT ![self] = 0]
              /\ snap' = [snap EXCEPT ![self] = <<>>]
              /\ pc' = [pc EXCEPT ![self] = "DStart"]
-             /\ UNCHANGED << st, nd, sk, pi, fi, tasks, now, obs, script, ntop, 
-                             panicked, done, ka, ca, gx, ex, nx, fx, bx, bc, 
-                             tx, ta, tc, ft, act, sj >>
+             /\ UNCHANGED << ci, st, nd, sk, pi, fi, tasks, now, obs, script, 
+                             ntop, panicked, done, ka, ca, gx, ex, nx, fx, bx, 
+                             bc, tx, ta, tc, ft, act, sj >>
 
 MP2(self) == /\ pc[self] = "MP2"
              /\ pc' = [pc EXCEPT ![self] = "Ret"]
-             /\ UNCHANGED << st, nd, sk, pi, fi, tasks, now, obs, script, ntop, 
-                             panicked, done, stack, fr, to, m, lg, sx, jx, ch, 
-                             lv, snap, ka, ca, gx, ex, nx, fx, bx, bc, tx, ta, 
-                             tc, ft, act, sj >>
+             /\ UNCHANGED << ci, st, nd, sk, pi, fi, tasks, now, obs, script, 
+                             ntop, panicked, done, stack, fr, to, m, lg, sx, 
+                             jx, ch, lv, snap, ka, ca, gx, ex, nx, fx, bx, bc, 
+                             tx, ta, tc, ft, act, sj >>
 
 MP3(self) == /\ pc[self] = "MP3"
              /\ /\ fr' = [fr EXCEPT ![self] = "S"]
@@ -3510,16 +3560,16 @@ MP3(self) == /\ pc[self] = "MP3"
              /\ lv' = [lv EXCEPT ![self] = 0]
              /\ snap' = [snap EXCEPT ![self] = <<>>]
              /\ pc' = [pc EXCEPT ![self] = "DStart"]
-             /\ UNCHANGED << st, nd, sk, pi, fi, tasks, now, obs, script, ntop, 
-                             panicked, done, ka, ca, gx, ex, nx, fx, bx, bc, 
-                             tx, ta, tc, ft, act, sj >>
+             /\ UNCHANGED << ci, st, nd, sk, pi, fi, tasks, now, obs, script, 
+                             ntop, panicked, done, ka, ca, gx, ex, nx, fx, bx, 
+                             bc, tx, ta, tc, ft, act, sj >>
 
 MP4(self) == /\ pc[self] = "MP4"
              /\ pc' = [pc EXCEPT ![self] = "Ret"]
-             /\ UNCHANGED << st, nd, sk, pi, fi, tasks, now, obs, script, ntop, 
-                             panicked, done, stack, fr, to, m, lg, sx, jx, ch, 
-                             lv, snap, ka, ca, gx, ex, nx, fx, bx, bc, tx, ta, 
-                             tc, ft, act, sj >>
+             /\ UNCHANGED << ci, st, nd, sk, pi, fi, tasks, now, obs, script, 
+                             ntop, panicked, done, stack, fr, to, m, lg, sx, 
+                             jx, ch, lv, snap, ka, ca, gx, ex, nx, fx, bx, bc, 
+                             tx, ta, tc, ft, act, sj >>
 
 MP5(self) == /\ pc[self] = "MP5"
              /\ /\ fr' = [fr EXCEPT ![self] = "S"]
@@ -3544,30 +3594,30 @@ MP5(self) == /\ pc[self] = "MP5"
              /\ lv' = [lv EXCEPT ![self] = 0]
              /\ snap' = [snap EXCEPT ![self] = <<>>]
              /\ pc' = [pc EXCEPT ![self] = "DStart"]
-             /\ UNCHANGED << st, nd, sk, pi, fi, tasks, now, obs, script, ntop, 
-                             panicked, done, ka, ca, gx, ex, nx, fx, bx, bc, 
-                             tx, ta, tc, ft, act, sj >>
+             /\ UNCHANGED << ci, st, nd, sk, pi, fi, tasks, now, obs, script, 
+                             ntop, panicked, done, ka, ca, gx, ex, nx, fx, bx, 
+                             bc, tx, ta, tc, ft, act, sj >>
 
 MP6(self) == /\ pc[self] = "MP6"
              /\ pc' = [pc EXCEPT ![self] = "Ret"]
-             /\ UNCHANGED << st, nd, sk, pi, fi, tasks, now, obs, script, ntop, 
-                             panicked, done, stack, fr, to, m, lg, sx, jx, ch, 
-                             lv, snap, ka, ca, gx, ex, nx, fx, bx, bc, tx, ta, 
-                             tc, ft, act, sj >>
+             /\ UNCHANGED << ci, st, nd, sk, pi, fi, tasks, now, obs, script, 
+                             ntop, panicked, done, stack, fr, to, m, lg, sx, 
+                             jx, ch, lv, snap, ka, ca, gx, ex, nx, fx, bx, bc, 
+                             tx, ta, tc, ft, act, sj >>
 
 MP7(self) == /\ pc[self] = "MP7"
              /\ pc' = [pc EXCEPT ![self] = "Ret"]
-             /\ UNCHANGED << st, nd, sk, pi, fi, tasks, now, obs, script, ntop, 
-                             panicked, done, stack, fr, to, m, lg, sx, jx, ch, 
-                             lv, snap, ka, ca, gx, ex, nx, fx, bx, bc, tx, ta, 
-                             tc, ft, act, sj >>
+             /\ UNCHANGED << ci, st, nd, sk, pi, fi, tasks, now, obs, script, 
+                             ntop, panicked, done, stack, fr, to, m, lg, sx, 
+                             jx, ch, lv, snap, ka, ca, gx, ex, nx, fx, bx, bc, 
+                             tx, ta, tc, ft, act, sj >>
 
 MP8(self) == /\ pc[self] = "MP8"
              /\ pc' = [pc EXCEPT ![self] = "Ret"]
-             /\ UNCHANGED << st, nd, sk, pi, fi, tasks, now, obs, script, ntop, 
-                             panicked, done, stack, fr, to, m, lg, sx, jx, ch, 
-                             lv, snap, ka, ca, gx, ex, nx, fx, bx, bc, tx, ta, 
-                             tc, ft, act, sj >>
+             /\ UNCHANGED << ci, st, nd, sk, pi, fi, tasks, now, obs, script, 
+                             ntop, panicked, done, stack, fr, to, m, lg, sx, 
+                             jx, ch, lv, snap, ka, ca, gx, ex, nx, fx, bx, bc, 
+                             tx, ta, tc, ft, act, sj >>
 
 FI1(self) == /\ pc[self] = "FI1"
              /\ /\ fr' = [fr EXCEPT ![self] = "S"]
@@ -3592,16 +3642,16 @@ FI1(self) == /\ pc[self] = "FI1"
              /\ lv' = [lv EXCEPT ![self] = 0]
              /\ snap' = [snap EXCEPT ![self] = <<>>]
              /\ pc' = [pc EXCEPT ![self] = "DStart"]
-             /\ UNCHANGED << st, nd, sk, pi, fi, tasks, now, obs, script, ntop, 
-                             panicked, done, ka, ca, gx, ex, nx, fx, bx, bc, 
-                             tx, ta, tc, ft, act, sj >>
+             /\ UNCHANGED << ci, st, nd, sk, pi, fi, tasks, now, obs, script, 
+                             ntop, panicked, done, ka, ca, gx, ex, nx, fx, bx, 
+                             bc, tx, ta, tc, ft, act, sj >>
 
 FI2(self) == /\ pc[self] = "FI2"
              /\ pc' = [pc EXCEPT ![self] = "Ret"]
-             /\ UNCHANGED << st, nd, sk, pi, fi, tasks, now, obs, script, ntop, 
-                             panicked, done, stack, fr, to, m, lg, sx, jx, ch, 
-                             lv, snap, ka, ca, gx, ex, nx, fx, bx, bc, tx, ta, 
-                             tc, ft, act, sj >>
+             /\ UNCHANGED << ci, st, nd, sk, pi, fi, tasks, now, obs, script, 
+                             ntop, panicked, done, stack, fr, to, m, lg, sx, 
+                             jx, ch, lv, snap, ka, ca, gx, ex, nx, fx, bx, bc, 
+                             tx, ta, tc, ft, act, sj >>
 
 FI3(self) == /\ pc[self] = "FI3"
              /\ /\ fr' = [fr EXCEPT ![self] = "S"]
@@ -3626,16 +3676,16 @@ FI3(self) == /\ pc[self] = "FI3"
              /\ lv' = [lv EXCEPT ![self] = 0]
              /\ snap' = [snap EXCEPT ![self] = <<>>]
              /\ pc' = [pc EXCEPT ![self] = "DStart"]
-             /\ UNCHANGED << st, nd, sk, pi, fi, tasks, now, obs, script, ntop, 
-                             panicked, done, ka, ca, gx, ex, nx, fx, bx, bc, 
-                             tx, ta, tc, ft, act, sj >>
+             /\ UNCHANGED << ci, st, nd, sk, pi, fi, tasks, now, obs, script, 
+                             ntop, panicked, done, ka, ca, gx, ex, nx, fx, bx, 
+                             bc, tx, ta, tc, ft, act, sj >>
 
 FI4(self) == /\ pc[self] = "FI4"
              /\ pc' = [pc EXCEPT ![self] = "Ret"]
-             /\ UNCHANGED << st, nd, sk, pi, fi, tasks, now, obs, script, ntop, 
-                             panicked, done, stack, fr, to, m, lg, sx, jx, ch, 
-                             lv, snap, ka, ca, gx, ex, nx, fx, bx, bc, tx, ta, 
-                             tc, ft, act, sj >>
+             /\ UNCHANGED << ci, st, nd, sk, pi, fi, tasks, now, obs, script, 
+                             ntop, panicked, done, stack, fr, to, m, lg, sx, 
+                             jx, ch, lv, snap, ka, ca, gx, ex, nx, fx, bx, bc, 
+                             tx, ta, tc, ft, act, sj >>
 
 FI5(self) == /\ pc[self] = "FI5"
              /\ IF PredInt(Node(to[self].n).p, m[self].v)
@@ -3692,30 +3742,30 @@ FI5(self) == /\ pc[self] = "FI5"
                                    /\ snap' = [snap EXCEPT ![self] = <<>>]
                                    /\ pc' = [pc EXCEPT ![self] = "DStart"]
                                    /\ UNCHANGED << obs, panicked >>
-             /\ UNCHANGED << st, nd, sk, pi, fi, tasks, now, script, ntop, 
+             /\ UNCHANGED << ci, st, nd, sk, pi, fi, tasks, now, script, ntop, 
                              done, ka, ca, gx, ex, nx, fx, bx, bc, tx, ta, tc, 
                              ft, act, sj >>
 
 FI6(self) == /\ pc[self] = "FI6"
              /\ pc' = [pc EXCEPT ![self] = "Ret"]
-             /\ UNCHANGED << st, nd, sk, pi, fi, tasks, now, obs, script, ntop, 
-                             panicked, done, stack, fr, to, m, lg, sx, jx, ch, 
-                             lv, snap, ka, ca, gx, ex, nx, fx, bx, bc, tx, ta, 
-                             tc, ft, act, sj >>
+             /\ UNCHANGED << ci, st, nd, sk, pi, fi, tasks, now, obs, script, 
+                             ntop, panicked, done, stack, fr, to, m, lg, sx, 
+                             jx, ch, lv, snap, ka, ca, gx, ex, nx, fx, bx, bc, 
+                             tx, ta, tc, ft, act, sj >>
 
 FI7(self) == /\ pc[self] = "FI7"
              /\ pc' = [pc EXCEPT ![self] = "Ret"]
-             /\ UNCHANGED << st, nd, sk, pi, fi, tasks, now, obs, script, ntop, 
-                             panicked, done, stack, fr, to, m, lg, sx, jx, ch, 
-                             lv, snap, ka, ca, gx, ex, nx, fx, bx, bc, tx, ta, 
-                             tc, ft, act, sj >>
+             /\ UNCHANGED << ci, st, nd, sk, pi, fi, tasks, now, obs, script, 
+                             ntop, panicked, done, stack, fr, to, m, lg, sx, 
+                             jx, ch, lv, snap, ka, ca, gx, ex, nx, fx, bx, bc, 
+                             tx, ta, tc, ft, act, sj >>
 
 FI8(self) == /\ pc[self] = "FI8"
              /\ pc' = [pc EXCEPT ![self] = "Ret"]
-             /\ UNCHANGED << st, nd, sk, pi, fi, tasks, now, obs, script, ntop, 
-                             panicked, done, stack, fr, to, m, lg, sx, jx, ch, 
-                             lv, snap, ka, ca, gx, ex, nx, fx, bx, bc, tx, ta, 
-                             tc, ft, act, sj >>
+             /\ UNCHANGED << ci, st, nd, sk, pi, fi, tasks, now, obs, script, 
+                             ntop, panicked, done, stack, fr, to, m, lg, sx, 
+                             jx, ch, lv, snap, ka, ca, gx, ex, nx, fx, bx, bc, 
+                             tx, ta, tc, ft, act, sj >>
 
 SC1(self) == /\ pc[self] = "SC1"
              /\ /\ fr' = [fr EXCEPT ![self] = "S"]
@@ -3740,16 +3790,16 @@ SC1(self) == /\ pc[self] = "SC1"
              /\ lv' = [lv EXCEPT ![self] = 0]
              /\ snap' = [snap EXCEPT ![self] = <<>>]
              /\ pc' = [pc EXCEPT ![self] = "DStart"]
-             /\ UNCHANGED << st, nd, sk, pi, fi, tasks, now, obs, script, ntop, 
-                             panicked, done, ka, ca, gx, ex, nx, fx, bx, bc, 
-                             tx, ta, tc, ft, act, sj >>
+             /\ UNCHANGED << ci, st, nd, sk, pi, fi, tasks, now, obs, script, 
+                             ntop, panicked, done, ka, ca, gx, ex, nx, fx, bx, 
+                             bc, tx, ta, tc, ft, act, sj >>
 
 SC2(self) == /\ pc[self] = "SC2"
              /\ pc' = [pc EXCEPT ![self] = "Ret"]
-             /\ UNCHANGED << st, nd, sk, pi, fi, tasks, now, obs, script, ntop, 
-                             panicked, done, stack, fr, to, m, lg, sx, jx, ch, 
-                             lv, snap, ka, ca, gx, ex, nx, fx, bx, bc, tx, ta, 
-                             tc, ft, act, sj >>
+             /\ UNCHANGED << ci, st, nd, sk, pi, fi, tasks, now, obs, script, 
+                             ntop, panicked, done, stack, fr, to, m, lg, sx, 
+                             jx, ch, lv, snap, ka, ca, gx, ex, nx, fx, bx, bc, 
+                             tx, ta, tc, ft, act, sj >>
 
 SC3(self) == /\ pc[self] = "SC3"
              /\ /\ fr' = [fr EXCEPT ![self] = "S"]
@@ -3774,16 +3824,16 @@ SC3(self) == /\ pc[self] = "SC3"
              /\ lv' = [lv EXCEPT ![self] = 0]
              /\ snap' = [snap EXCEPT ![self] = <<>>]
              /\ pc' = [pc EXCEPT ![self] = "DStart"]
-             /\ UNCHANGED << st, nd, sk, pi, fi, tasks, now, obs, script, ntop, 
-                             panicked, done, ka, ca, gx, ex, nx, fx, bx, bc, 
-                             tx, ta, tc, ft, act, sj >>
+             /\ UNCHANGED << ci, st, nd, sk, pi, fi, tasks, now, obs, script, 
+                             ntop, panicked, done, ka, ca, gx, ex, nx, fx, bx, 
+                             bc, tx, ta, tc, ft, act, sj >>
 
 SC4(self) == /\ pc[self] = "SC4"
              /\ pc' = [pc EXCEPT ![self] = "Ret"]
-             /\ UNCHANGED << st, nd, sk, pi, fi, tasks, now, obs, script, ntop, 
-                             panicked, done, stack, fr, to, m, lg, sx, jx, ch, 
-                             lv, snap, ka, ca, gx, ex, nx, fx, bx, bc, tx, ta, 
-                             tc, ft, act, sj >>
+             /\ UNCHANGED << ci, st, nd, sk, pi, fi, tasks, now, obs, script, 
+                             ntop, panicked, done, stack, fr, to, m, lg, sx, 
+                             jx, ch, lv, snap, ka, ca, gx, ex, nx, fx, bx, bc, 
+                             tx, ta, tc, ft, act, sj >>
 
 SC5(self) == /\ pc[self] = "SC5"
              /\ /\ fr' = [fr EXCEPT ![self] = "S"]
@@ -3808,30 +3858,30 @@ SC5(self) == /\ pc[self] = "SC5"
              /\ lv' = [lv EXCEPT ![self] = 0]
              /\ snap' = [snap EXCEPT ![self] = <<>>]
              /\ pc' = [pc EXCEPT ![self] = "DStart"]
-             /\ UNCHANGED << st, nd, sk, pi, fi, tasks, now, obs, script, ntop, 
-                             panicked, done, ka, ca, gx, ex, nx, fx, bx, bc, 
-                             tx, ta, tc, ft, act, sj >>
+             /\ UNCHANGED << ci, st, nd, sk, pi, fi, tasks, now, obs, script, 
+                             ntop, panicked, done, ka, ca, gx, ex, nx, fx, bx, 
+                             bc, tx, ta, tc, ft, act, sj >>
 
 SC6(self) == /\ pc[self] = "SC6"
              /\ pc' = [pc EXCEPT ![self] = "Ret"]
-             /\ UNCHANGED << st, nd, sk, pi, fi, tasks, now, obs, script, ntop, 
-                             panicked, done, stack, fr, to, m, lg, sx, jx, ch, 
-                             lv, snap, ka, ca, gx, ex, nx, fx, bx, bc, tx, ta, 
-                             tc, ft, act, sj >>
+             /\ UNCHANGED << ci, st, nd, sk, pi, fi, tasks, now, obs, script, 
+                             ntop, panicked, done, stack, fr, to, m, lg, sx, 
+                             jx, ch, lv, snap, ka, ca, gx, ex, nx, fx, bx, bc, 
+                             tx, ta, tc, ft, act, sj >>
 
 SC7(self) == /\ pc[self] = "SC7"
              /\ pc' = [pc EXCEPT ![self] = "Ret"]
-             /\ UNCHANGED << st, nd, sk, pi, fi, tasks, now, obs, script, ntop, 
-                             panicked, done, stack, fr, to, m, lg, sx, jx, ch, 
-                             lv, snap, ka, ca, gx, ex, nx, fx, bx, bc, tx, ta, 
-                             tc, ft, act, sj >>
+             /\ UNCHANGED << ci, st, nd, sk, pi, fi, tasks, now, obs, script, 
+                             ntop, panicked, done, stack, fr, to, m, lg, sx, 
+                             jx, ch, lv, snap, ka, ca, gx, ex, nx, fx, bx, bc, 
+                             tx, ta, tc, ft, act, sj >>
 
 SC8(self) == /\ pc[self] = "SC8"
              /\ pc' = [pc EXCEPT ![self] = "Ret"]
-             /\ UNCHANGED << st, nd, sk, pi, fi, tasks, now, obs, script, ntop, 
-                             panicked, done, stack, fr, to, m, lg, sx, jx, ch, 
-                             lv, snap, ka, ca, gx, ex, nx, fx, bx, bc, tx, ta, 
-                             tc, ft, act, sj >>
+             /\ UNCHANGED << ci, st, nd, sk, pi, fi, tasks, now, obs, script, 
+                             ntop, panicked, done, stack, fr, to, m, lg, sx, 
+                             jx, ch, lv, snap, ka, ca, gx, ex, nx, fx, bx, bc, 
+                             tx, ta, tc, ft, act, sj >>
 
 TK1(self) == /\ pc[self] = "TK1"
              /\ /\ fr' = [fr EXCEPT ![self] = "S"]
@@ -3856,16 +3906,16 @@ TK1(self) == /\ pc[self] = "TK1"
              /\ lv' = [lv EXCEPT ![self] = 0]
              /\ snap' = [snap EXCEPT ![self] = <<>>]
              /\ pc' = [pc EXCEPT ![self] = "DStart"]
-             /\ UNCHANGED << st, nd, sk, pi, fi, tasks, now, obs, script, ntop, 
-                             panicked, done, ka, ca, gx, ex, nx, fx, bx, bc, 
-                             tx, ta, tc, ft, act, sj >>
+             /\ UNCHANGED << ci, st, nd, sk, pi, fi, tasks, now, obs, script, 
+                             ntop, panicked, done, ka, ca, gx, ex, nx, fx, bx, 
+                             bc, tx, ta, tc, ft, act, sj >>
 
 TK2(self) == /\ pc[self] = "TK2"
              /\ pc' = [pc EXCEPT ![self] = "Ret"]
-             /\ UNCHANGED << st, nd, sk, pi, fi, tasks, now, obs, script, ntop, 
-                             panicked, done, stack, fr, to, m, lg, sx, jx, ch, 
-                             lv, snap, ka, ca, gx, ex, nx, fx, bx, bc, tx, ta, 
-                             tc, ft, act, sj >>
+             /\ UNCHANGED << ci, st, nd, sk, pi, fi, tasks, now, obs, script, 
+                             ntop, panicked, done, stack, fr, to, m, lg, sx, 
+                             jx, ch, lv, snap, ka, ca, gx, ex, nx, fx, bx, bc, 
+                             tx, ta, tc, ft, act, sj >>
 
 TK3(self) == /\ pc[self] = "TK3"
              /\ /\ fr' = [fr EXCEPT ![self] = "S"]
@@ -3890,22 +3940,22 @@ TK3(self) == /\ pc[self] = "TK3"
              /\ lv' = [lv EXCEPT ![self] = 0]
              /\ snap' = [snap EXCEPT ![self] = <<>>]
              /\ pc' = [pc EXCEPT ![self] = "DStart"]
-             /\ UNCHANGED << st, nd, sk, pi, fi, tasks, now, obs, script, ntop, 
-                             panicked, done, ka, ca, gx, ex, nx, fx, bx, bc, 
-                             tx, ta, tc, ft, act, sj >>
+             /\ UNCHANGED << ci, st, nd, sk, pi, fi, tasks, now, obs, script, 
+                             ntop, panicked, done, ka, ca, gx, ex, nx, fx, bx, 
+                             bc, tx, ta, tc, ft, act, sj >>
 
 TK4(self) == /\ pc[self] = "TK4"
              /\ pc' = [pc EXCEPT ![self] = "Ret"]
-             /\ UNCHANGED << st, nd, sk, pi, fi, tasks, now, obs, script, ntop, 
-                             panicked, done, stack, fr, to, m, lg, sx, jx, ch, 
-                             lv, snap, ka, ca, gx, ex, nx, fx, bx, bc, tx, ta, 
-                             tc, ft, act, sj >>
+             /\ UNCHANGED << ci, st, nd, sk, pi, fi, tasks, now, obs, script, 
+                             ntop, panicked, done, stack, fr, to, m, lg, sx, 
+                             jx, ch, lv, snap, ka, ca, gx, ex, nx, fx, bx, bc, 
+                             tx, ta, tc, ft, act, sj >>
 
 tk_taken_ld(self) == /\ pc[self] = "tk_taken_ld"
                      /\ IF S(to[self]).taken < Node(to[self].n).n
                            THEN /\ pc' = [pc EXCEPT ![self] = "tk_taken_fa"]
                            ELSE /\ pc' = [pc EXCEPT ![self] = "TK5"]
-                     /\ UNCHANGED << st, nd, sk, pi, fi, tasks, now, obs, 
+                     /\ UNCHANGED << ci, st, nd, sk, pi, fi, tasks, now, obs, 
                                      script, ntop, panicked, done, stack, fr, 
                                      to, m, lg, sx, jx, ch, lv, snap, ka, ca, 
                                      gx, ex, nx, fx, bx, bc, tx, ta, tc, ft, 
@@ -3915,10 +3965,11 @@ tk_taken_fa(self) == /\ pc[self] = "tk_taken_fa"
                      /\ lv' = [lv EXCEPT ![self] = S(to[self]).taken + 1]
                      /\ st' = [st EXCEPT ![to[self].n][to[self].s].taken = S(to[self]).taken + 1]
                      /\ pc' = [pc EXCEPT ![self] = "tk_data"]
-                     /\ UNCHANGED << nd, sk, pi, fi, tasks, now, obs, script, 
-                                     ntop, panicked, done, stack, fr, to, m, 
-                                     lg, sx, jx, ch, snap, ka, ca, gx, ex, nx, 
-                                     fx, bx, bc, tx, ta, tc, ft, act, sj >>
+                     /\ UNCHANGED << ci, nd, sk, pi, fi, tasks, now, obs, 
+                                     script, ntop, panicked, done, stack, fr, 
+                                     to, m, lg, sx, jx, ch, snap, ka, ca, gx, 
+                                     ex, nx, fx, bx, bc, tx, ta, tc, ft, act, 
+                                     sj >>
 
 tk_data(self) == /\ pc[self] = "tk_data"
                  /\ /\ fr' = [fr EXCEPT ![self] = "S"]
@@ -3943,23 +3994,23 @@ tk_data(self) == /\ pc[self] = "tk_data"
                  /\ lv' = [lv EXCEPT ![self] = 0]
                  /\ snap' = [snap EXCEPT ![self] = <<>>]
                  /\ pc' = [pc EXCEPT ![self] = "DStart"]
-                 /\ UNCHANGED << st, nd, sk, pi, fi, tasks, now, obs, script, 
-                                 ntop, panicked, done, ka, ca, gx, ex, nx, fx, 
-                                 bx, bc, tx, ta, tc, ft, act, sj >>
+                 /\ UNCHANGED << ci, st, nd, sk, pi, fi, tasks, now, obs, 
+                                 script, ntop, panicked, done, ka, ca, gx, ex, 
+                                 nx, fx, bx, bc, tx, ta, tc, ft, act, sj >>
 
 tk_end_ld(self) == /\ pc[self] = "tk_end_ld"
                    /\ IF lv[self] = Node(to[self].n).n /\ ~S(to[self]).end
                          THEN /\ pc' = [pc EXCEPT ![self] = "tk_end_st"]
                          ELSE /\ pc' = [pc EXCEPT ![self] = "TK5"]
-                   /\ UNCHANGED << st, nd, sk, pi, fi, tasks, now, obs, script, 
-                                   ntop, panicked, done, stack, fr, to, m, lg, 
-                                   sx, jx, ch, lv, snap, ka, ca, gx, ex, nx, 
-                                   fx, bx, bc, tx, ta, tc, ft, act, sj >>
+                   /\ UNCHANGED << ci, st, nd, sk, pi, fi, tasks, now, obs, 
+                                   script, ntop, panicked, done, stack, fr, to, 
+                                   m, lg, sx, jx, ch, lv, snap, ka, ca, gx, ex, 
+                                   nx, fx, bx, bc, tx, ta, tc, ft, act, sj >>
 
 tk_end_st(self) == /\ pc[self] = "tk_end_st"
                    /\ st' = [st EXCEPT ![to[self].n][to[self].s].end = TRUE]
                    /\ pc' = [pc EXCEPT ![self] = "tk_up_ld"]
-                   /\ UNCHANGED << nd, sk, pi, fi, tasks, now, obs, script, 
+                   /\ UNCHANGED << ci, nd, sk, pi, fi, tasks, now, obs, script, 
                                    ntop, panicked, done, stack, fr, to, m, lg, 
                                    sx, jx, ch, lv, snap, ka, ca, gx, ex, nx, 
                                    fx, bx, bc, tx, ta, tc, ft, act, sj >>
@@ -3972,10 +4023,10 @@ tk_up_ld(self) == /\ pc[self] = "tk_up_ld"
                              /\ pc' = [pc EXCEPT ![self] = "Halt"]
                         ELSE /\ pc' = [pc EXCEPT ![self] = "tk_up_term"]
                              /\ UNCHANGED << obs, panicked >>
-                  /\ UNCHANGED << st, nd, sk, pi, fi, tasks, now, script, ntop, 
-                                  done, stack, fr, to, m, lg, sx, jx, ch, lv, 
-                                  snap, ka, ca, gx, ex, nx, fx, bx, bc, tx, ta, 
-                                  tc, ft, act, sj >>
+                  /\ UNCHANGED << ci, st, nd, sk, pi, fi, tasks, now, script, 
+                                  ntop, done, stack, fr, to, m, lg, sx, jx, ch, 
+                                  lv, snap, ka, ca, gx, ex, nx, fx, bx, bc, tx, 
+                                  ta, tc, ft, act, sj >>
 
 tk_up_term(self) == /\ pc[self] = "tk_up_term"
                     /\ /\ fr' = [fr EXCEPT ![self] = "S"]
@@ -4000,7 +4051,7 @@ tk_up_term(self) == /\ pc[self] = "tk_up_term"
                     /\ lv' = [lv EXCEPT ![self] = 0]
                     /\ snap' = [snap EXCEPT ![self] = <<>>]
                     /\ pc' = [pc EXCEPT ![self] = "DStart"]
-                    /\ UNCHANGED << st, nd, sk, pi, fi, tasks, now, obs, 
+                    /\ UNCHANGED << ci, st, nd, sk, pi, fi, tasks, now, obs, 
                                     script, ntop, panicked, done, ka, ca, gx, 
                                     ex, nx, fx, bx, bc, tx, ta, tc, ft, act, 
                                     sj >>
@@ -4028,31 +4079,31 @@ tk_sink_term(self) == /\ pc[self] = "tk_sink_term"
                       /\ lv' = [lv EXCEPT ![self] = 0]
                       /\ snap' = [snap EXCEPT ![self] = <<>>]
                       /\ pc' = [pc EXCEPT ![self] = "DStart"]
-                      /\ UNCHANGED << st, nd, sk, pi, fi, tasks, now, obs, 
+                      /\ UNCHANGED << ci, st, nd, sk, pi, fi, tasks, now, obs, 
                                       script, ntop, panicked, done, ka, ca, gx, 
                                       ex, nx, fx, bx, bc, tx, ta, tc, ft, act, 
                                       sj >>
 
 TK5(self) == /\ pc[self] = "TK5"
              /\ pc' = [pc EXCEPT ![self] = "Ret"]
-             /\ UNCHANGED << st, nd, sk, pi, fi, tasks, now, obs, script, ntop, 
-                             panicked, done, stack, fr, to, m, lg, sx, jx, ch, 
-                             lv, snap, ka, ca, gx, ex, nx, fx, bx, bc, tx, ta, 
-                             tc, ft, act, sj >>
+             /\ UNCHANGED << ci, st, nd, sk, pi, fi, tasks, now, obs, script, 
+                             ntop, panicked, done, stack, fr, to, m, lg, sx, 
+                             jx, ch, lv, snap, ka, ca, gx, ex, nx, fx, bx, bc, 
+                             tx, ta, tc, ft, act, sj >>
 
 TK6(self) == /\ pc[self] = "TK6"
              /\ pc' = [pc EXCEPT ![self] = "Ret"]
-             /\ UNCHANGED << st, nd, sk, pi, fi, tasks, now, obs, script, ntop, 
-                             panicked, done, stack, fr, to, m, lg, sx, jx, ch, 
-                             lv, snap, ka, ca, gx, ex, nx, fx, bx, bc, tx, ta, 
-                             tc, ft, act, sj >>
+             /\ UNCHANGED << ci, st, nd, sk, pi, fi, tasks, now, obs, script, 
+                             ntop, panicked, done, stack, fr, to, m, lg, sx, 
+                             jx, ch, lv, snap, ka, ca, gx, ex, nx, fx, bx, bc, 
+                             tx, ta, tc, ft, act, sj >>
 
 TK7(self) == /\ pc[self] = "TK7"
              /\ pc' = [pc EXCEPT ![self] = "Ret"]
-             /\ UNCHANGED << st, nd, sk, pi, fi, tasks, now, obs, script, ntop, 
-                             panicked, done, stack, fr, to, m, lg, sx, jx, ch, 
-                             lv, snap, ka, ca, gx, ex, nx, fx, bx, bc, tx, ta, 
-                             tc, ft, act, sj >>
+             /\ UNCHANGED << ci, st, nd, sk, pi, fi, tasks, now, obs, script, 
+                             ntop, panicked, done, stack, fr, to, m, lg, sx, 
+                             jx, ch, lv, snap, ka, ca, gx, ex, nx, fx, bx, bc, 
+                             tx, ta, tc, ft, act, sj >>
 
 TK8(self) == /\ pc[self] = "TK8"
              /\ IF S(to[self]).utb = NoRef
@@ -4085,16 +4136,16 @@ TK8(self) == /\ pc[self] = "TK8"
                         /\ snap' = [snap EXCEPT ![self] = <<>>]
                         /\ pc' = [pc EXCEPT ![self] = "DStart"]
                         /\ UNCHANGED << obs, panicked >>
-             /\ UNCHANGED << st, nd, sk, pi, fi, tasks, now, script, ntop, 
+             /\ UNCHANGED << ci, st, nd, sk, pi, fi, tasks, now, script, ntop, 
                              done, ka, ca, gx, ex, nx, fx, bx, bc, tx, ta, tc, 
                              ft, act, sj >>
 
 TK9(self) == /\ pc[self] = "TK9"
              /\ pc' = [pc EXCEPT ![self] = "Ret"]
-             /\ UNCHANGED << st, nd, sk, pi, fi, tasks, now, obs, script, ntop, 
-                             panicked, done, stack, fr, to, m, lg, sx, jx, ch, 
-                             lv, snap, ka, ca, gx, ex, nx, fx, bx, bc, tx, ta, 
-                             tc, ft, act, sj >>
+             /\ UNCHANGED << ci, st, nd, sk, pi, fi, tasks, now, obs, script, 
+                             ntop, panicked, done, stack, fr, to, m, lg, sx, 
+                             jx, ch, lv, snap, ka, ca, gx, ex, nx, fx, bx, bc, 
+                             tx, ta, tc, ft, act, sj >>
 
 SK1(self) == /\ pc[self] = "SK1"
              /\ /\ fr' = [fr EXCEPT ![self] = "S"]
@@ -4119,16 +4170,16 @@ SK1(self) == /\ pc[self] = "SK1"
              /\ lv' = [lv EXCEPT ![self] = 0]
              /\ snap' = [snap EXCEPT ![self] = <<>>]
              /\ pc' = [pc EXCEPT ![self] = "DStart"]
-             /\ UNCHANGED << st, nd, sk, pi, fi, tasks, now, obs, script, ntop, 
-                             panicked, done, ka, ca, gx, ex, nx, fx, bx, bc, 
-                             tx, ta, tc, ft, act, sj >>
+             /\ UNCHANGED << ci, st, nd, sk, pi, fi, tasks, now, obs, script, 
+                             ntop, panicked, done, ka, ca, gx, ex, nx, fx, bx, 
+                             bc, tx, ta, tc, ft, act, sj >>
 
 SK2(self) == /\ pc[self] = "SK2"
              /\ pc' = [pc EXCEPT ![self] = "Ret"]
-             /\ UNCHANGED << st, nd, sk, pi, fi, tasks, now, obs, script, ntop, 
-                             panicked, done, stack, fr, to, m, lg, sx, jx, ch, 
-                             lv, snap, ka, ca, gx, ex, nx, fx, bx, bc, tx, ta, 
-                             tc, ft, act, sj >>
+             /\ UNCHANGED << ci, st, nd, sk, pi, fi, tasks, now, obs, script, 
+                             ntop, panicked, done, stack, fr, to, m, lg, sx, 
+                             jx, ch, lv, snap, ka, ca, gx, ex, nx, fx, bx, bc, 
+                             tx, ta, tc, ft, act, sj >>
 
 SK3(self) == /\ pc[self] = "SK3"
              /\ /\ fr' = [fr EXCEPT ![self] = "S"]
@@ -4153,23 +4204,23 @@ SK3(self) == /\ pc[self] = "SK3"
              /\ lv' = [lv EXCEPT ![self] = 0]
              /\ snap' = [snap EXCEPT ![self] = <<>>]
              /\ pc' = [pc EXCEPT ![self] = "DStart"]
-             /\ UNCHANGED << st, nd, sk, pi, fi, tasks, now, obs, script, ntop, 
-                             panicked, done, ka, ca, gx, ex, nx, fx, bx, bc, 
-                             tx, ta, tc, ft, act, sj >>
+             /\ UNCHANGED << ci, st, nd, sk, pi, fi, tasks, now, obs, script, 
+                             ntop, panicked, done, ka, ca, gx, ex, nx, fx, bx, 
+                             bc, tx, ta, tc, ft, act, sj >>
 
 SK4(self) == /\ pc[self] = "SK4"
              /\ pc' = [pc EXCEPT ![self] = "Ret"]
-             /\ UNCHANGED << st, nd, sk, pi, fi, tasks, now, obs, script, ntop, 
-                             panicked, done, stack, fr, to, m, lg, sx, jx, ch, 
-                             lv, snap, ka, ca, gx, ex, nx, fx, bx, bc, tx, ta, 
-                             tc, ft, act, sj >>
+             /\ UNCHANGED << ci, st, nd, sk, pi, fi, tasks, now, obs, script, 
+                             ntop, panicked, done, stack, fr, to, m, lg, sx, 
+                             jx, ch, lv, snap, ka, ca, gx, ex, nx, fx, bx, bc, 
+                             tx, ta, tc, ft, act, sj >>
 
 SK6(self) == /\ pc[self] = "SK6"
              /\ pc' = [pc EXCEPT ![self] = "Ret"]
-             /\ UNCHANGED << st, nd, sk, pi, fi, tasks, now, obs, script, ntop, 
-                             panicked, done, stack, fr, to, m, lg, sx, jx, ch, 
-                             lv, snap, ka, ca, gx, ex, nx, fx, bx, bc, tx, ta, 
-                             tc, ft, act, sj >>
+             /\ UNCHANGED << ci, st, nd, sk, pi, fi, tasks, now, obs, script, 
+                             ntop, panicked, done, stack, fr, to, m, lg, sx, 
+                             jx, ch, lv, snap, ka, ca, gx, ex, nx, fx, bx, bc, 
+                             tx, ta, tc, ft, act, sj >>
 
 SK5(self) == /\ pc[self] = "SK5"
              /\ IF S(to[self]).utb = NoRef
@@ -4202,23 +4253,23 @@ SK5(self) == /\ pc[self] = "SK5"
                         /\ snap' = [snap EXCEPT ![self] = <<>>]
                         /\ pc' = [pc EXCEPT ![self] = "DStart"]
                         /\ UNCHANGED << obs, panicked >>
-             /\ UNCHANGED << st, nd, sk, pi, fi, tasks, now, script, ntop, 
+             /\ UNCHANGED << ci, st, nd, sk, pi, fi, tasks, now, script, ntop, 
                              done, ka, ca, gx, ex, nx, fx, bx, bc, tx, ta, tc, 
                              ft, act, sj >>
 
 SK7(self) == /\ pc[self] = "SK7"
              /\ pc' = [pc EXCEPT ![self] = "Ret"]
-             /\ UNCHANGED << st, nd, sk, pi, fi, tasks, now, obs, script, ntop, 
-                             panicked, done, stack, fr, to, m, lg, sx, jx, ch, 
-                             lv, snap, ka, ca, gx, ex, nx, fx, bx, bc, tx, ta, 
-                             tc, ft, act, sj >>
+             /\ UNCHANGED << ci, st, nd, sk, pi, fi, tasks, now, obs, script, 
+                             ntop, panicked, done, stack, fr, to, m, lg, sx, 
+                             jx, ch, lv, snap, ka, ca, gx, ex, nx, fx, bx, bc, 
+                             tx, ta, tc, ft, act, sj >>
 
 SK8(self) == /\ pc[self] = "SK8"
              /\ pc' = [pc EXCEPT ![self] = "Ret"]
-             /\ UNCHANGED << st, nd, sk, pi, fi, tasks, now, obs, script, ntop, 
-                             panicked, done, stack, fr, to, m, lg, sx, jx, ch, 
-                             lv, snap, ka, ca, gx, ex, nx, fx, bx, bc, tx, ta, 
-                             tc, ft, act, sj >>
+             /\ UNCHANGED << ci, st, nd, sk, pi, fi, tasks, now, obs, script, 
+                             ntop, panicked, done, stack, fr, to, m, lg, sx, 
+                             jx, ch, lv, snap, ka, ca, gx, ex, nx, fx, bx, bc, 
+                             tx, ta, tc, ft, act, sj >>
 
 MG1(self) == /\ pc[self] = "MG1"
              /\ IF jx[self] <= Len(Ups(to[self].n)) /\ ~st[to[self].n][sx[self]].ended
@@ -4247,17 +4298,17 @@ MG1(self) == /\ pc[self] = "MG1"
                    ELSE /\ pc' = [pc EXCEPT ![self] = "Ret"]
                         /\ UNCHANGED << stack, fr, to, m, lg, sx, jx, ch, lv, 
                                         snap >>
-             /\ UNCHANGED << st, nd, sk, pi, fi, tasks, now, obs, script, ntop, 
-                             panicked, done, ka, ca, gx, ex, nx, fx, bx, bc, 
-                             tx, ta, tc, ft, act, sj >>
+             /\ UNCHANGED << ci, st, nd, sk, pi, fi, tasks, now, obs, script, 
+                             ntop, panicked, done, ka, ca, gx, ex, nx, fx, bx, 
+                             bc, tx, ta, tc, ft, act, sj >>
 
 MG2(self) == /\ pc[self] = "MG2"
              /\ jx' = [jx EXCEPT ![self] = jx[self] + 1]
              /\ pc' = [pc EXCEPT ![self] = "MG1"]
-             /\ UNCHANGED << st, nd, sk, pi, fi, tasks, now, obs, script, ntop, 
-                             panicked, done, stack, fr, to, m, lg, sx, ch, lv, 
-                             snap, ka, ca, gx, ex, nx, fx, bx, bc, tx, ta, tc, 
-                             ft, act, sj >>
+             /\ UNCHANGED << ci, st, nd, sk, pi, fi, tasks, now, obs, script, 
+                             ntop, panicked, done, stack, fr, to, m, lg, sx, 
+                             ch, lv, snap, ka, ca, gx, ex, nx, fx, bx, bc, tx, 
+                             ta, tc, ft, act, sj >>
 
 MG8(self) == /\ pc[self] = "MG8"
              /\ IF jx[self] <= Len(Ups(to[self].n))
@@ -4300,17 +4351,17 @@ MG8(self) == /\ pc[self] = "MG8"
                    ELSE /\ pc' = [pc EXCEPT ![self] = "Ret"]
                         /\ UNCHANGED << obs, panicked, stack, fr, to, m, lg, 
                                         sx, jx, ch, lv, snap >>
-             /\ UNCHANGED << st, nd, sk, pi, fi, tasks, now, script, ntop, 
+             /\ UNCHANGED << ci, st, nd, sk, pi, fi, tasks, now, script, ntop, 
                              done, ka, ca, gx, ex, nx, fx, bx, bc, tx, ta, tc, 
                              ft, act, sj >>
 
 MG9(self) == /\ pc[self] = "MG9"
              /\ jx' = [jx EXCEPT ![self] = jx[self] + 1]
              /\ pc' = [pc EXCEPT ![self] = "MG8"]
-             /\ UNCHANGED << st, nd, sk, pi, fi, tasks, now, obs, script, ntop, 
-                             panicked, done, stack, fr, to, m, lg, sx, ch, lv, 
-                             snap, ka, ca, gx, ex, nx, fx, bx, bc, tx, ta, tc, 
-                             ft, act, sj >>
+             /\ UNCHANGED << ci, st, nd, sk, pi, fi, tasks, now, obs, script, 
+                             ntop, panicked, done, stack, fr, to, m, lg, sx, 
+                             ch, lv, snap, ka, ca, gx, ex, nx, fx, bx, bc, tx, 
+                             ta, tc, ft, act, sj >>
 
 mg_late_ld(self) == /\ pc[self] = "mg_late_ld"
                     /\ IF S(to[self]).ended
@@ -4339,14 +4390,14 @@ mg_late_ld(self) == /\ pc[self] = "mg_late_ld"
                           ELSE /\ pc' = [pc EXCEPT ![self] = "mg_tb_st"]
                                /\ UNCHANGED << stack, fr, to, m, lg, sx, jx, 
                                                ch, lv, snap >>
-                    /\ UNCHANGED << st, nd, sk, pi, fi, tasks, now, obs, 
+                    /\ UNCHANGED << ci, st, nd, sk, pi, fi, tasks, now, obs, 
                                     script, ntop, panicked, done, ka, ca, gx, 
                                     ex, nx, fx, bx, bc, tx, ta, tc, ft, act, 
                                     sj >>
 
 mg_late_ret(self) == /\ pc[self] = "mg_late_ret"
                      /\ pc' = [pc EXCEPT ![self] = "Ret"]
-                     /\ UNCHANGED << st, nd, sk, pi, fi, tasks, now, obs, 
+                     /\ UNCHANGED << ci, st, nd, sk, pi, fi, tasks, now, obs, 
                                      script, ntop, panicked, done, stack, fr, 
                                      to, m, lg, sx, jx, ch, lv, snap, ka, ca, 
                                      gx, ex, nx, fx, bx, bc, tx, ta, tc, ft, 
@@ -4355,7 +4406,7 @@ mg_late_ret(self) == /\ pc[self] = "mg_late_ret"
 mg_tb_st(self) == /\ pc[self] = "mg_tb_st"
                   /\ st' = [st EXCEPT ![to[self].n][to[self].s].tbs[to[self].i] = m[self].tb]
                   /\ pc' = [pc EXCEPT ![self] = "mg_start_fa"]
-                  /\ UNCHANGED << nd, sk, pi, fi, tasks, now, obs, script, 
+                  /\ UNCHANGED << ci, nd, sk, pi, fi, tasks, now, obs, script, 
                                   ntop, panicked, done, stack, fr, to, m, lg, 
                                   sx, jx, ch, lv, snap, ka, ca, gx, ex, nx, fx, 
                                   bx, bc, tx, ta, tc, ft, act, sj >>
@@ -4364,10 +4415,11 @@ mg_start_fa(self) == /\ pc[self] = "mg_start_fa"
                      /\ lv' = [lv EXCEPT ![self] = S(to[self]).start + 1]
                      /\ st' = [st EXCEPT ![to[self].n][to[self].s].start = S(to[self]).start + 1]
                      /\ pc' = [pc EXCEPT ![self] = "mg_greet"]
-                     /\ UNCHANGED << nd, sk, pi, fi, tasks, now, obs, script, 
-                                     ntop, panicked, done, stack, fr, to, m, 
-                                     lg, sx, jx, ch, snap, ka, ca, gx, ex, nx, 
-                                     fx, bx, bc, tx, ta, tc, ft, act, sj >>
+                     /\ UNCHANGED << ci, nd, sk, pi, fi, tasks, now, obs, 
+                                     script, ntop, panicked, done, stack, fr, 
+                                     to, m, lg, sx, jx, ch, snap, ka, ca, gx, 
+                                     ex, nx, fx, bx, bc, tx, ta, tc, ft, act, 
+                                     sj >>
 
 mg_greet(self) == /\ pc[self] = "mg_greet"
                   /\ IF lv[self] = 1
@@ -4396,16 +4448,16 @@ mg_greet(self) == /\ pc[self] = "mg_greet"
                         ELSE /\ pc' = [pc EXCEPT ![self] = "MG3"]
                              /\ UNCHANGED << stack, fr, to, m, lg, sx, jx, ch, 
                                              lv, snap >>
-                  /\ UNCHANGED << st, nd, sk, pi, fi, tasks, now, obs, script, 
-                                  ntop, panicked, done, ka, ca, gx, ex, nx, fx, 
-                                  bx, bc, tx, ta, tc, ft, act, sj >>
+                  /\ UNCHANGED << ci, st, nd, sk, pi, fi, tasks, now, obs, 
+                                  script, ntop, panicked, done, ka, ca, gx, ex, 
+                                  nx, fx, bx, bc, tx, ta, tc, ft, act, sj >>
 
 MG3(self) == /\ pc[self] = "MG3"
              /\ pc' = [pc EXCEPT ![self] = "Ret"]
-             /\ UNCHANGED << st, nd, sk, pi, fi, tasks, now, obs, script, ntop, 
-                             panicked, done, stack, fr, to, m, lg, sx, jx, ch, 
-                             lv, snap, ka, ca, gx, ex, nx, fx, bx, bc, tx, ta, 
-                             tc, ft, act, sj >>
+             /\ UNCHANGED << ci, st, nd, sk, pi, fi, tasks, now, obs, script, 
+                             ntop, panicked, done, stack, fr, to, m, lg, sx, 
+                             jx, ch, lv, snap, ka, ca, gx, ex, nx, fx, bx, bc, 
+                             tx, ta, tc, ft, act, sj >>
 
 mg_data(self) == /\ pc[self] = "mg_data"
                  /\ /\ fr' = [fr EXCEPT ![self] = "S"]
@@ -4430,25 +4482,26 @@ mg_data(self) == /\ pc[self] = "mg_data"
                  /\ lv' = [lv EXCEPT ![self] = 0]
                  /\ snap' = [snap EXCEPT ![self] = <<>>]
                  /\ pc' = [pc EXCEPT ![self] = "DStart"]
-                 /\ UNCHANGED << st, nd, sk, pi, fi, tasks, now, obs, script, 
-                                 ntop, panicked, done, ka, ca, gx, ex, nx, fx, 
-                                 bx, bc, tx, ta, tc, ft, act, sj >>
+                 /\ UNCHANGED << ci, st, nd, sk, pi, fi, tasks, now, obs, 
+                                 script, ntop, panicked, done, ka, ca, gx, ex, 
+                                 nx, fx, bx, bc, tx, ta, tc, ft, act, sj >>
 
 MG4(self) == /\ pc[self] = "MG4"
              /\ pc' = [pc EXCEPT ![self] = "Ret"]
-             /\ UNCHANGED << st, nd, sk, pi, fi, tasks, now, obs, script, ntop, 
-                             panicked, done, stack, fr, to, m, lg, sx, jx, ch, 
-                             lv, snap, ka, ca, gx, ex, nx, fx, bx, bc, tx, ta, 
-                             tc, ft, act, sj >>
+             /\ UNCHANGED << ci, st, nd, sk, pi, fi, tasks, now, obs, script, 
+                             ntop, panicked, done, stack, fr, to, m, lg, sx, 
+                             jx, ch, lv, snap, ka, ca, gx, ex, nx, fx, bx, bc, 
+                             tx, ta, tc, ft, act, sj >>
 
 mg_ended_st(self) == /\ pc[self] = "mg_ended_st"
                      /\ st' = [st EXCEPT ![to[self].n][to[self].s].ended = TRUE]
                      /\ jx' = [jx EXCEPT ![self] = 1]
                      /\ pc' = [pc EXCEPT ![self] = "mg_sib_ld"]
-                     /\ UNCHANGED << nd, sk, pi, fi, tasks, now, obs, script, 
-                                     ntop, panicked, done, stack, fr, to, m, 
-                                     lg, sx, ch, lv, snap, ka, ca, gx, ex, nx, 
-                                     fx, bx, bc, tx, ta, tc, ft, act, sj >>
+                     /\ UNCHANGED << ci, nd, sk, pi, fi, tasks, now, obs, 
+                                     script, ntop, panicked, done, stack, fr, 
+                                     to, m, lg, sx, ch, lv, snap, ka, ca, gx, 
+                                     ex, nx, fx, bx, bc, tx, ta, tc, ft, act, 
+                                     sj >>
 
 mg_sib_ld(self) == /\ pc[self] = "mg_sib_ld"
                    /\ IF jx[self] <= Len(Ups(to[self].n))
@@ -4456,18 +4509,18 @@ mg_sib_ld(self) == /\ pc[self] = "mg_sib_ld"
                                     THEN /\ pc' = [pc EXCEPT ![self] = "mg_sib_term"]
                                     ELSE /\ pc' = [pc EXCEPT ![self] = "MG5"]
                          ELSE /\ pc' = [pc EXCEPT ![self] = "mg_err"]
-                   /\ UNCHANGED << st, nd, sk, pi, fi, tasks, now, obs, script, 
-                                   ntop, panicked, done, stack, fr, to, m, lg, 
-                                   sx, jx, ch, lv, snap, ka, ca, gx, ex, nx, 
-                                   fx, bx, bc, tx, ta, tc, ft, act, sj >>
+                   /\ UNCHANGED << ci, st, nd, sk, pi, fi, tasks, now, obs, 
+                                   script, ntop, panicked, done, stack, fr, to, 
+                                   m, lg, sx, jx, ch, lv, snap, ka, ca, gx, ex, 
+                                   nx, fx, bx, bc, tx, ta, tc, ft, act, sj >>
 
 MG5(self) == /\ pc[self] = "MG5"
              /\ jx' = [jx EXCEPT ![self] = jx[self] + 1]
              /\ pc' = [pc EXCEPT ![self] = "mg_sib_ld"]
-             /\ UNCHANGED << st, nd, sk, pi, fi, tasks, now, obs, script, ntop, 
-                             panicked, done, stack, fr, to, m, lg, sx, ch, lv, 
-                             snap, ka, ca, gx, ex, nx, fx, bx, bc, tx, ta, tc, 
-                             ft, act, sj >>
+             /\ UNCHANGED << ci, st, nd, sk, pi, fi, tasks, now, obs, script, 
+                             ntop, panicked, done, stack, fr, to, m, lg, sx, 
+                             ch, lv, snap, ka, ca, gx, ex, nx, fx, bx, bc, tx, 
+                             ta, tc, ft, act, sj >>
 
 mg_sib_term(self) == /\ pc[self] = "mg_sib_term"
                      /\ /\ fr' = [fr EXCEPT ![self] = "S"]
@@ -4492,7 +4545,7 @@ mg_sib_term(self) == /\ pc[self] = "mg_sib_term"
                      /\ lv' = [lv EXCEPT ![self] = 0]
                      /\ snap' = [snap EXCEPT ![self] = <<>>]
                      /\ pc' = [pc EXCEPT ![self] = "DStart"]
-                     /\ UNCHANGED << st, nd, sk, pi, fi, tasks, now, obs, 
+                     /\ UNCHANGED << ci, st, nd, sk, pi, fi, tasks, now, obs, 
                                      script, ntop, panicked, done, ka, ca, gx, 
                                      ex, nx, fx, bx, bc, tx, ta, tc, ft, act, 
                                      sj >>
@@ -4520,21 +4573,21 @@ mg_err(self) == /\ pc[self] = "mg_err"
                 /\ lv' = [lv EXCEPT ![self] = 0]
                 /\ snap' = [snap EXCEPT ![self] = <<>>]
                 /\ pc' = [pc EXCEPT ![self] = "DStart"]
-                /\ UNCHANGED << st, nd, sk, pi, fi, tasks, now, obs, script, 
-                                ntop, panicked, done, ka, ca, gx, ex, nx, fx, 
-                                bx, bc, tx, ta, tc, ft, act, sj >>
+                /\ UNCHANGED << ci, st, nd, sk, pi, fi, tasks, now, obs, 
+                                script, ntop, panicked, done, ka, ca, gx, ex, 
+                                nx, fx, bx, bc, tx, ta, tc, ft, act, sj >>
 
 MG6(self) == /\ pc[self] = "MG6"
              /\ pc' = [pc EXCEPT ![self] = "Ret"]
-             /\ UNCHANGED << st, nd, sk, pi, fi, tasks, now, obs, script, ntop, 
-                             panicked, done, stack, fr, to, m, lg, sx, jx, ch, 
-                             lv, snap, ka, ca, gx, ex, nx, fx, bx, bc, tx, ta, 
-                             tc, ft, act, sj >>
+             /\ UNCHANGED << ci, st, nd, sk, pi, fi, tasks, now, obs, script, 
+                             ntop, panicked, done, stack, fr, to, m, lg, sx, 
+                             jx, ch, lv, snap, ka, ca, gx, ex, nx, fx, bx, bc, 
+                             tx, ta, tc, ft, act, sj >>
 
 mg_tb_clr(self) == /\ pc[self] = "mg_tb_clr"
                    /\ st' = [st EXCEPT ![to[self].n][to[self].s].tbs[to[self].i] = NoRef]
                    /\ pc' = [pc EXCEPT ![self] = "mg_end_fa"]
-                   /\ UNCHANGED << nd, sk, pi, fi, tasks, now, obs, script, 
+                   /\ UNCHANGED << ci, nd, sk, pi, fi, tasks, now, obs, script, 
                                    ntop, panicked, done, stack, fr, to, m, lg, 
                                    sx, jx, ch, lv, snap, ka, ca, gx, ex, nx, 
                                    fx, bx, bc, tx, ta, tc, ft, act, sj >>
@@ -4543,7 +4596,7 @@ mg_end_fa(self) == /\ pc[self] = "mg_end_fa"
                    /\ lv' = [lv EXCEPT ![self] = S(to[self]).endc + 1]
                    /\ st' = [st EXCEPT ![to[self].n][to[self].s].endc = S(to[self]).endc + 1]
                    /\ pc' = [pc EXCEPT ![self] = "mg_term"]
-                   /\ UNCHANGED << nd, sk, pi, fi, tasks, now, obs, script, 
+                   /\ UNCHANGED << ci, nd, sk, pi, fi, tasks, now, obs, script, 
                                    ntop, panicked, done, stack, fr, to, m, lg, 
                                    sx, jx, ch, snap, ka, ca, gx, ex, nx, fx, 
                                    bx, bc, tx, ta, tc, ft, act, sj >>
@@ -4575,16 +4628,16 @@ mg_term(self) == /\ pc[self] = "mg_term"
                        ELSE /\ pc' = [pc EXCEPT ![self] = "MG7"]
                             /\ UNCHANGED << stack, fr, to, m, lg, sx, jx, ch, 
                                             lv, snap >>
-                 /\ UNCHANGED << st, nd, sk, pi, fi, tasks, now, obs, script, 
-                                 ntop, panicked, done, ka, ca, gx, ex, nx, fx, 
-                                 bx, bc, tx, ta, tc, ft, act, sj >>
+                 /\ UNCHANGED << ci, st, nd, sk, pi, fi, tasks, now, obs, 
+                                 script, ntop, panicked, done, ka, ca, gx, ex, 
+                                 nx, fx, bx, bc, tx, ta, tc, ft, act, sj >>
 
 MG7(self) == /\ pc[self] = "MG7"
              /\ pc' = [pc EXCEPT ![self] = "Ret"]
-             /\ UNCHANGED << st, nd, sk, pi, fi, tasks, now, obs, script, ntop, 
-                             panicked, done, stack, fr, to, m, lg, sx, jx, ch, 
-                             lv, snap, ka, ca, gx, ex, nx, fx, bx, bc, tx, ta, 
-                             tc, ft, act, sj >>
+             /\ UNCHANGED << ci, st, nd, sk, pi, fi, tasks, now, obs, script, 
+                             ntop, panicked, done, stack, fr, to, m, lg, sx, 
+                             jx, ch, lv, snap, ka, ca, gx, ex, nx, fx, bx, bc, 
+                             tx, ta, tc, ft, act, sj >>
 
 CCNext(self) == /\ pc[self] = "CCNext"
                 /\ IF st[to[self].n][sx[self]].i = Len(Ups(to[self].n))
@@ -4632,16 +4685,16 @@ CCNext(self) == /\ pc[self] = "CCNext"
                            /\ lv' = [lv EXCEPT ![self] = 0]
                            /\ snap' = [snap EXCEPT ![self] = <<>>]
                            /\ pc' = [pc EXCEPT ![self] = "DStart"]
-                /\ UNCHANGED << st, nd, sk, pi, fi, tasks, now, obs, script, 
-                                ntop, panicked, done, ka, ca, gx, ex, nx, fx, 
-                                bx, bc, tx, ta, tc, ft, act, sj >>
+                /\ UNCHANGED << ci, st, nd, sk, pi, fi, tasks, now, obs, 
+                                script, ntop, panicked, done, ka, ca, gx, ex, 
+                                nx, fx, bx, bc, tx, ta, tc, ft, act, sj >>
 
 CC7(self) == /\ pc[self] = "CC7"
              /\ pc' = [pc EXCEPT ![self] = "Ret"]
-             /\ UNCHANGED << st, nd, sk, pi, fi, tasks, now, obs, script, ntop, 
-                             panicked, done, stack, fr, to, m, lg, sx, jx, ch, 
-                             lv, snap, ka, ca, gx, ex, nx, fx, bx, bc, tx, ta, 
-                             tc, ft, act, sj >>
+             /\ UNCHANGED << ci, st, nd, sk, pi, fi, tasks, now, obs, script, 
+                             ntop, panicked, done, stack, fr, to, m, lg, sx, 
+                             jx, ch, lv, snap, ka, ca, gx, ex, nx, fx, bx, bc, 
+                             tx, ta, tc, ft, act, sj >>
 
 CC1(self) == /\ pc[self] = "CC1"
              /\ IF S(to[self]).i = 0
@@ -4693,30 +4746,30 @@ CC1(self) == /\ pc[self] = "CC1"
                               ELSE /\ pc' = [pc EXCEPT ![self] = "CC2"]
                                    /\ UNCHANGED << stack, fr, to, m, lg, sx, 
                                                    jx, ch, lv, snap >>
-             /\ UNCHANGED << st, nd, sk, pi, fi, tasks, now, obs, script, ntop, 
-                             panicked, done, ka, ca, gx, ex, nx, fx, bx, bc, 
-                             tx, ta, tc, ft, act, sj >>
+             /\ UNCHANGED << ci, st, nd, sk, pi, fi, tasks, now, obs, script, 
+                             ntop, panicked, done, ka, ca, gx, ex, nx, fx, bx, 
+                             bc, tx, ta, tc, ft, act, sj >>
 
 CC2(self) == /\ pc[self] = "CC2"
              /\ pc' = [pc EXCEPT ![self] = "Ret"]
-             /\ UNCHANGED << st, nd, sk, pi, fi, tasks, now, obs, script, ntop, 
-                             panicked, done, stack, fr, to, m, lg, sx, jx, ch, 
-                             lv, snap, ka, ca, gx, ex, nx, fx, bx, bc, tx, ta, 
-                             tc, ft, act, sj >>
+             /\ UNCHANGED << ci, st, nd, sk, pi, fi, tasks, now, obs, script, 
+                             ntop, panicked, done, stack, fr, to, m, lg, sx, 
+                             jx, ch, lv, snap, ka, ca, gx, ex, nx, fx, bx, bc, 
+                             tx, ta, tc, ft, act, sj >>
 
 CC3(self) == /\ pc[self] = "CC3"
              /\ pc' = [pc EXCEPT ![self] = "Ret"]
-             /\ UNCHANGED << st, nd, sk, pi, fi, tasks, now, obs, script, ntop, 
-                             panicked, done, stack, fr, to, m, lg, sx, jx, ch, 
-                             lv, snap, ka, ca, gx, ex, nx, fx, bx, bc, tx, ta, 
-                             tc, ft, act, sj >>
+             /\ UNCHANGED << ci, st, nd, sk, pi, fi, tasks, now, obs, script, 
+                             ntop, panicked, done, stack, fr, to, m, lg, sx, 
+                             jx, ch, lv, snap, ka, ca, gx, ex, nx, fx, bx, bc, 
+                             tx, ta, tc, ft, act, sj >>
 
 CC4(self) == /\ pc[self] = "CC4"
              /\ pc' = [pc EXCEPT ![self] = "Ret"]
-             /\ UNCHANGED << st, nd, sk, pi, fi, tasks, now, obs, script, ntop, 
-                             panicked, done, stack, fr, to, m, lg, sx, jx, ch, 
-                             lv, snap, ka, ca, gx, ex, nx, fx, bx, bc, tx, ta, 
-                             tc, ft, act, sj >>
+             /\ UNCHANGED << ci, st, nd, sk, pi, fi, tasks, now, obs, script, 
+                             ntop, panicked, done, stack, fr, to, m, lg, sx, 
+                             jx, ch, lv, snap, ka, ca, gx, ex, nx, fx, bx, bc, 
+                             tx, ta, tc, ft, act, sj >>
 
 CC5(self) == /\ pc[self] = "CC5"
              /\ IF S(to[self]).utb = NoRef
@@ -4749,16 +4802,16 @@ CC5(self) == /\ pc[self] = "CC5"
                         /\ snap' = [snap EXCEPT ![self] = <<>>]
                         /\ pc' = [pc EXCEPT ![self] = "DStart"]
                         /\ UNCHANGED << obs, panicked >>
-             /\ UNCHANGED << st, nd, sk, pi, fi, tasks, now, script, ntop, 
+             /\ UNCHANGED << ci, st, nd, sk, pi, fi, tasks, now, script, ntop, 
                              done, ka, ca, gx, ex, nx, fx, bx, bc, tx, ta, tc, 
                              ft, act, sj >>
 
 CC6(self) == /\ pc[self] = "CC6"
              /\ pc' = [pc EXCEPT ![self] = "Ret"]
-             /\ UNCHANGED << st, nd, sk, pi, fi, tasks, now, obs, script, ntop, 
-                             panicked, done, stack, fr, to, m, lg, sx, jx, ch, 
-                             lv, snap, ka, ca, gx, ex, nx, fx, bx, bc, tx, ta, 
-                             tc, ft, act, sj >>
+             /\ UNCHANGED << ci, st, nd, sk, pi, fi, tasks, now, obs, script, 
+                             ntop, panicked, done, stack, fr, to, m, lg, sx, 
+                             jx, ch, lv, snap, ka, ca, gx, ex, nx, fx, bx, bc, 
+                             tx, ta, tc, ft, act, sj >>
 
 CB1(self) == /\ pc[self] = "CB1"
              /\ IF jx[self] <= Len(Ups(to[self].n))
@@ -4787,22 +4840,22 @@ CB1(self) == /\ pc[self] = "CB1"
                    ELSE /\ pc' = [pc EXCEPT ![self] = "Ret"]
                         /\ UNCHANGED << stack, fr, to, m, lg, sx, jx, ch, lv, 
                                         snap >>
-             /\ UNCHANGED << st, nd, sk, pi, fi, tasks, now, obs, script, ntop, 
-                             panicked, done, ka, ca, gx, ex, nx, fx, bx, bc, 
-                             tx, ta, tc, ft, act, sj >>
+             /\ UNCHANGED << ci, st, nd, sk, pi, fi, tasks, now, obs, script, 
+                             ntop, panicked, done, ka, ca, gx, ex, nx, fx, bx, 
+                             bc, tx, ta, tc, ft, act, sj >>
 
 CB2(self) == /\ pc[self] = "CB2"
              /\ jx' = [jx EXCEPT ![self] = jx[self] + 1]
              /\ pc' = [pc EXCEPT ![self] = "CB1"]
-             /\ UNCHANGED << st, nd, sk, pi, fi, tasks, now, obs, script, ntop, 
-                             panicked, done, stack, fr, to, m, lg, sx, ch, lv, 
-                             snap, ka, ca, gx, ex, nx, fx, bx, bc, tx, ta, tc, 
-                             ft, act, sj >>
+             /\ UNCHANGED << ci, st, nd, sk, pi, fi, tasks, now, obs, script, 
+                             ntop, panicked, done, stack, fr, to, m, lg, sx, 
+                             ch, lv, snap, ka, ca, gx, ex, nx, fx, bx, bc, tx, 
+                             ta, tc, ft, act, sj >>
 
 cb_tb_st(self) == /\ pc[self] = "cb_tb_st"
                   /\ st' = [st EXCEPT ![to[self].n][to[self].s].tbs[to[self].i] = m[self].tb]
                   /\ pc' = [pc EXCEPT ![self] = "cb_start_fs"]
-                  /\ UNCHANGED << nd, sk, pi, fi, tasks, now, obs, script, 
+                  /\ UNCHANGED << ci, nd, sk, pi, fi, tasks, now, obs, script, 
                                   ntop, panicked, done, stack, fr, to, m, lg, 
                                   sx, jx, ch, lv, snap, ka, ca, gx, ex, nx, fx, 
                                   bx, bc, tx, ta, tc, ft, act, sj >>
@@ -4811,10 +4864,11 @@ cb_start_fs(self) == /\ pc[self] = "cb_start_fs"
                      /\ lv' = [lv EXCEPT ![self] = S(to[self]).nstart - 1]
                      /\ st' = [st EXCEPT ![to[self].n][to[self].s].nstart = S(to[self]).nstart - 1]
                      /\ pc' = [pc EXCEPT ![self] = "cb_greet"]
-                     /\ UNCHANGED << nd, sk, pi, fi, tasks, now, obs, script, 
-                                     ntop, panicked, done, stack, fr, to, m, 
-                                     lg, sx, jx, ch, snap, ka, ca, gx, ex, nx, 
-                                     fx, bx, bc, tx, ta, tc, ft, act, sj >>
+                     /\ UNCHANGED << ci, nd, sk, pi, fi, tasks, now, obs, 
+                                     script, ntop, panicked, done, stack, fr, 
+                                     to, m, lg, sx, jx, ch, snap, ka, ca, gx, 
+                                     ex, nx, fx, bx, bc, tx, ta, tc, ft, act, 
+                                     sj >>
 
 cb_greet(self) == /\ pc[self] = "cb_greet"
                   /\ IF lv[self] = 0
@@ -4843,22 +4897,22 @@ cb_greet(self) == /\ pc[self] = "cb_greet"
                         ELSE /\ pc' = [pc EXCEPT ![self] = "CB3"]
                              /\ UNCHANGED << stack, fr, to, m, lg, sx, jx, ch, 
                                              lv, snap >>
-                  /\ UNCHANGED << st, nd, sk, pi, fi, tasks, now, obs, script, 
-                                  ntop, panicked, done, ka, ca, gx, ex, nx, fx, 
-                                  bx, bc, tx, ta, tc, ft, act, sj >>
+                  /\ UNCHANGED << ci, st, nd, sk, pi, fi, tasks, now, obs, 
+                                  script, ntop, panicked, done, ka, ca, gx, ex, 
+                                  nx, fx, bx, bc, tx, ta, tc, ft, act, sj >>
 
 CB3(self) == /\ pc[self] = "CB3"
              /\ pc' = [pc EXCEPT ![self] = "Ret"]
-             /\ UNCHANGED << st, nd, sk, pi, fi, tasks, now, obs, script, ntop, 
-                             panicked, done, stack, fr, to, m, lg, sx, jx, ch, 
-                             lv, snap, ka, ca, gx, ex, nx, fx, bx, bc, tx, ta, 
-                             tc, ft, act, sj >>
+             /\ UNCHANGED << ci, st, nd, sk, pi, fi, tasks, now, obs, script, 
+                             ntop, panicked, done, stack, fr, to, m, lg, sx, 
+                             jx, ch, lv, snap, ka, ca, gx, ex, nx, fx, bx, bc, 
+                             tx, ta, tc, ft, act, sj >>
 
 cb_vals_ld(self) == /\ pc[self] = "cb_vals_ld"
                     /\ IF ~S(to[self]).has[to[self].i]
                           THEN /\ pc' = [pc EXCEPT ![self] = "cb_ndata_fs"]
                           ELSE /\ pc' = [pc EXCEPT ![self] = "cb_ndata_ld"]
-                    /\ UNCHANGED << st, nd, sk, pi, fi, tasks, now, obs, 
+                    /\ UNCHANGED << ci, st, nd, sk, pi, fi, tasks, now, obs, 
                                     script, ntop, panicked, done, stack, fr, 
                                     to, m, lg, sx, jx, ch, lv, snap, ka, ca, 
                                     gx, ex, nx, fx, bx, bc, tx, ta, tc, ft, 
@@ -4868,15 +4922,16 @@ cb_ndata_fs(self) == /\ pc[self] = "cb_ndata_fs"
                      /\ lv' = [lv EXCEPT ![self] = S(to[self]).ndata - 1]
                      /\ st' = [st EXCEPT ![to[self].n][to[self].s].ndata = S(to[self]).ndata - 1]
                      /\ pc' = [pc EXCEPT ![self] = "cb_rcu"]
-                     /\ UNCHANGED << nd, sk, pi, fi, tasks, now, obs, script, 
-                                     ntop, panicked, done, stack, fr, to, m, 
-                                     lg, sx, jx, ch, snap, ka, ca, gx, ex, nx, 
-                                     fx, bx, bc, tx, ta, tc, ft, act, sj >>
+                     /\ UNCHANGED << ci, nd, sk, pi, fi, tasks, now, obs, 
+                                     script, ntop, panicked, done, stack, fr, 
+                                     to, m, lg, sx, jx, ch, snap, ka, ca, gx, 
+                                     ex, nx, fx, bx, bc, tx, ta, tc, ft, act, 
+                                     sj >>
 
 cb_ndata_ld(self) == /\ pc[self] = "cb_ndata_ld"
                      /\ lv' = [lv EXCEPT ![self] = S(to[self]).ndata]
                      /\ pc' = [pc EXCEPT ![self] = "cb_rcu"]
-                     /\ UNCHANGED << st, nd, sk, pi, fi, tasks, now, obs, 
+                     /\ UNCHANGED << ci, st, nd, sk, pi, fi, tasks, now, obs, 
                                      script, ntop, panicked, done, stack, fr, 
                                      to, m, lg, sx, jx, ch, snap, ka, ca, gx, 
                                      ex, nx, fx, bx, bc, tx, ta, tc, ft, act, 
@@ -4885,10 +4940,10 @@ cb_ndata_ld(self) == /\ pc[self] = "cb_ndata_ld"
 cb_rcu(self) == /\ pc[self] = "cb_rcu"
                 /\ st' = [st EXCEPT ![to[self].n][to[self].s] = [S(to[self]) EXCEPT !.has[to[self].i] = TRUE, !.vals[to[self].i] = m[self].v]]
                 /\ pc' = [pc EXCEPT ![self] = "cb_emit_ld"]
-                /\ UNCHANGED << nd, sk, pi, fi, tasks, now, obs, script, ntop, 
-                                panicked, done, stack, fr, to, m, lg, sx, jx, 
-                                ch, lv, snap, ka, ca, gx, ex, nx, fx, bx, bc, 
-                                tx, ta, tc, ft, act, sj >>
+                /\ UNCHANGED << ci, nd, sk, pi, fi, tasks, now, obs, script, 
+                                ntop, panicked, done, stack, fr, to, m, lg, sx, 
+                                jx, ch, lv, snap, ka, ca, gx, ex, nx, fx, bx, 
+                                bc, tx, ta, tc, ft, act, sj >>
 
 cb_emit_ld(self) == /\ pc[self] = "cb_emit_ld"
                     /\ IF lv[self] = 0
@@ -4901,7 +4956,7 @@ cb_emit_ld(self) == /\ pc[self] = "cb_emit_ld"
                                           /\ UNCHANGED << obs, panicked >>
                           ELSE /\ pc' = [pc EXCEPT ![self] = "CB4"]
                                /\ UNCHANGED << obs, panicked >>
-                    /\ UNCHANGED << st, nd, sk, pi, fi, tasks, now, script, 
+                    /\ UNCHANGED << ci, st, nd, sk, pi, fi, tasks, now, script, 
                                     ntop, done, stack, fr, to, m, lg, sx, jx, 
                                     ch, lv, snap, ka, ca, gx, ex, nx, fx, bx, 
                                     bc, tx, ta, tc, ft, act, sj >>
@@ -4929,22 +4984,22 @@ cb_data(self) == /\ pc[self] = "cb_data"
                  /\ lv' = [lv EXCEPT ![self] = 0]
                  /\ snap' = [snap EXCEPT ![self] = <<>>]
                  /\ pc' = [pc EXCEPT ![self] = "DStart"]
-                 /\ UNCHANGED << st, nd, sk, pi, fi, tasks, now, obs, script, 
-                                 ntop, panicked, done, ka, ca, gx, ex, nx, fx, 
-                                 bx, bc, tx, ta, tc, ft, act, sj >>
+                 /\ UNCHANGED << ci, st, nd, sk, pi, fi, tasks, now, obs, 
+                                 script, ntop, panicked, done, ka, ca, gx, ex, 
+                                 nx, fx, bx, bc, tx, ta, tc, ft, act, sj >>
 
 CB4(self) == /\ pc[self] = "CB4"
              /\ pc' = [pc EXCEPT ![self] = "Ret"]
-             /\ UNCHANGED << st, nd, sk, pi, fi, tasks, now, obs, script, ntop, 
-                             panicked, done, stack, fr, to, m, lg, sx, jx, ch, 
-                             lv, snap, ka, ca, gx, ex, nx, fx, bx, bc, tx, ta, 
-                             tc, ft, act, sj >>
+             /\ UNCHANGED << ci, st, nd, sk, pi, fi, tasks, now, obs, script, 
+                             ntop, panicked, done, stack, fr, to, m, lg, sx, 
+                             jx, ch, lv, snap, ka, ca, gx, ex, nx, fx, bx, bc, 
+                             tx, ta, tc, ft, act, sj >>
 
 cb_end_fs(self) == /\ pc[self] = "cb_end_fs"
                    /\ lv' = [lv EXCEPT ![self] = S(to[self]).nend - 1]
                    /\ st' = [st EXCEPT ![to[self].n][to[self].s].nend = S(to[self]).nend - 1]
                    /\ pc' = [pc EXCEPT ![self] = "cb_term"]
-                   /\ UNCHANGED << nd, sk, pi, fi, tasks, now, obs, script, 
+                   /\ UNCHANGED << ci, nd, sk, pi, fi, tasks, now, obs, script, 
                                    ntop, panicked, done, stack, fr, to, m, lg, 
                                    sx, jx, ch, snap, ka, ca, gx, ex, nx, fx, 
                                    bx, bc, tx, ta, tc, ft, act, sj >>
@@ -4976,16 +5031,16 @@ cb_term(self) == /\ pc[self] = "cb_term"
                        ELSE /\ pc' = [pc EXCEPT ![self] = "CB5"]
                             /\ UNCHANGED << stack, fr, to, m, lg, sx, jx, ch, 
                                             lv, snap >>
-                 /\ UNCHANGED << st, nd, sk, pi, fi, tasks, now, obs, script, 
-                                 ntop, panicked, done, ka, ca, gx, ex, nx, fx, 
-                                 bx, bc, tx, ta, tc, ft, act, sj >>
+                 /\ UNCHANGED << ci, st, nd, sk, pi, fi, tasks, now, obs, 
+                                 script, ntop, panicked, done, ka, ca, gx, ex, 
+                                 nx, fx, bx, bc, tx, ta, tc, ft, act, sj >>
 
 CB5(self) == /\ pc[self] = "CB5"
              /\ pc' = [pc EXCEPT ![self] = "Ret"]
-             /\ UNCHANGED << st, nd, sk, pi, fi, tasks, now, obs, script, ntop, 
-                             panicked, done, stack, fr, to, m, lg, sx, jx, ch, 
-                             lv, snap, ka, ca, gx, ex, nx, fx, bx, bc, tx, ta, 
-                             tc, ft, act, sj >>
+             /\ UNCHANGED << ci, st, nd, sk, pi, fi, tasks, now, obs, script, 
+                             ntop, panicked, done, stack, fr, to, m, lg, sx, 
+                             jx, ch, lv, snap, ka, ca, gx, ex, nx, fx, bx, bc, 
+                             tx, ta, tc, ft, act, sj >>
 
 CB6(self) == /\ pc[self] = "CB6"
              /\ IF jx[self] <= Len(Ups(to[self].n))
@@ -5022,17 +5077,17 @@ CB6(self) == /\ pc[self] = "CB6"
                    ELSE /\ pc' = [pc EXCEPT ![self] = "Ret"]
                         /\ UNCHANGED << obs, panicked, stack, fr, to, m, lg, 
                                         sx, jx, ch, lv, snap >>
-             /\ UNCHANGED << st, nd, sk, pi, fi, tasks, now, script, ntop, 
+             /\ UNCHANGED << ci, st, nd, sk, pi, fi, tasks, now, script, ntop, 
                              done, ka, ca, gx, ex, nx, fx, bx, bc, tx, ta, tc, 
                              ft, act, sj >>
 
 CB7(self) == /\ pc[self] = "CB7"
              /\ jx' = [jx EXCEPT ![self] = jx[self] + 1]
              /\ pc' = [pc EXCEPT ![self] = "CB6"]
-             /\ UNCHANGED << st, nd, sk, pi, fi, tasks, now, obs, script, ntop, 
-                             panicked, done, stack, fr, to, m, lg, sx, ch, lv, 
-                             snap, ka, ca, gx, ex, nx, fx, bx, bc, tx, ta, tc, 
-                             ft, act, sj >>
+             /\ UNCHANGED << ci, st, nd, sk, pi, fi, tasks, now, obs, script, 
+                             ntop, panicked, done, stack, fr, to, m, lg, sx, 
+                             ch, lv, snap, ka, ca, gx, ex, nx, fx, bx, bc, tx, 
+                             ta, tc, ft, act, sj >>
 
 FL1(self) == /\ pc[self] = "FL1"
              /\ /\ fr' = [fr EXCEPT ![self] = "S"]
@@ -5057,16 +5112,16 @@ FL1(self) == /\ pc[self] = "FL1"
              /\ lv' = [lv EXCEPT ![self] = 0]
              /\ snap' = [snap EXCEPT ![self] = <<>>]
              /\ pc' = [pc EXCEPT ![self] = "DStart"]
-             /\ UNCHANGED << st, nd, sk, pi, fi, tasks, now, obs, script, ntop, 
-                             panicked, done, ka, ca, gx, ex, nx, fx, bx, bc, 
-                             tx, ta, tc, ft, act, sj >>
+             /\ UNCHANGED << ci, st, nd, sk, pi, fi, tasks, now, obs, script, 
+                             ntop, panicked, done, ka, ca, gx, ex, nx, fx, bx, 
+                             bc, tx, ta, tc, ft, act, sj >>
 
 FL2(self) == /\ pc[self] = "FL2"
              /\ pc' = [pc EXCEPT ![self] = "Ret"]
-             /\ UNCHANGED << st, nd, sk, pi, fi, tasks, now, obs, script, ntop, 
-                             panicked, done, stack, fr, to, m, lg, sx, jx, ch, 
-                             lv, snap, ka, ca, gx, ex, nx, fx, bx, bc, tx, ta, 
-                             tc, ft, act, sj >>
+             /\ UNCHANGED << ci, st, nd, sk, pi, fi, tasks, now, obs, script, 
+                             ntop, panicked, done, stack, fr, to, m, lg, sx, 
+                             jx, ch, lv, snap, ka, ca, gx, ex, nx, fx, bx, bc, 
+                             tx, ta, tc, ft, act, sj >>
 
 FL3(self) == /\ pc[self] = "FL3"
              /\ /\ fr' = [fr EXCEPT ![self] = "S"]
@@ -5091,16 +5146,16 @@ FL3(self) == /\ pc[self] = "FL3"
              /\ lv' = [lv EXCEPT ![self] = 0]
              /\ snap' = [snap EXCEPT ![self] = <<>>]
              /\ pc' = [pc EXCEPT ![self] = "DStart"]
-             /\ UNCHANGED << st, nd, sk, pi, fi, tasks, now, obs, script, ntop, 
-                             panicked, done, ka, ca, gx, ex, nx, fx, bx, bc, 
-                             tx, ta, tc, ft, act, sj >>
+             /\ UNCHANGED << ci, st, nd, sk, pi, fi, tasks, now, obs, script, 
+                             ntop, panicked, done, ka, ca, gx, ex, nx, fx, bx, 
+                             bc, tx, ta, tc, ft, act, sj >>
 
 FL4(self) == /\ pc[self] = "FL4"
              /\ pc' = [pc EXCEPT ![self] = "Ret"]
-             /\ UNCHANGED << st, nd, sk, pi, fi, tasks, now, obs, script, ntop, 
-                             panicked, done, stack, fr, to, m, lg, sx, jx, ch, 
-                             lv, snap, ka, ca, gx, ex, nx, fx, bx, bc, tx, ta, 
-                             tc, ft, act, sj >>
+             /\ UNCHANGED << ci, st, nd, sk, pi, fi, tasks, now, obs, script, 
+                             ntop, panicked, done, stack, fr, to, m, lg, sx, 
+                             jx, ch, lv, snap, ka, ca, gx, ex, nx, fx, bx, bc, 
+                             tx, ta, tc, ft, act, sj >>
 
 FL5a(self) == /\ pc[self] = "FL5a"
               /\ IF S(to[self]).itb # NoRef
@@ -5129,7 +5184,7 @@ FL5a(self) == /\ pc[self] = "FL5a"
                     ELSE /\ pc' = [pc EXCEPT ![self] = "FL5"]
                          /\ UNCHANGED << stack, fr, to, m, lg, sx, jx, ch, lv, 
                                          snap >>
-              /\ UNCHANGED << st, nd, sk, pi, fi, tasks, now, obs, script, 
+              /\ UNCHANGED << ci, st, nd, sk, pi, fi, tasks, now, obs, script, 
                               ntop, panicked, done, ka, ca, gx, ex, nx, fx, bx, 
                               bc, tx, ta, tc, ft, act, sj >>
 
@@ -5181,16 +5236,16 @@ FL5(self) == /\ pc[self] = "FL5"
                         /\ snap' = [snap EXCEPT ![self] = <<>>]
                         /\ pc' = [pc EXCEPT ![self] = "DStart"]
                         /\ fi' = fi
-             /\ UNCHANGED << st, nd, sk, pi, tasks, now, obs, script, ntop, 
+             /\ UNCHANGED << ci, st, nd, sk, pi, tasks, now, obs, script, ntop, 
                              panicked, done, ka, ca, gx, ex, nx, fx, bx, bc, 
                              tx, ta, tc, ft, act, sj >>
 
 FL6(self) == /\ pc[self] = "FL6"
              /\ pc' = [pc EXCEPT ![self] = "Ret"]
-             /\ UNCHANGED << st, nd, sk, pi, fi, tasks, now, obs, script, ntop, 
-                             panicked, done, stack, fr, to, m, lg, sx, jx, ch, 
-                             lv, snap, ka, ca, gx, ex, nx, fx, bx, bc, tx, ta, 
-                             tc, ft, act, sj >>
+             /\ UNCHANGED << ci, st, nd, sk, pi, fi, tasks, now, obs, script, 
+                             ntop, panicked, done, stack, fr, to, m, lg, sx, 
+                             jx, ch, lv, snap, ka, ca, gx, ex, nx, fx, bx, bc, 
+                             tx, ta, tc, ft, act, sj >>
 
 FL7(self) == /\ pc[self] = "FL7"
              /\ /\ fr' = [fr EXCEPT ![self] = "S"]
@@ -5215,23 +5270,23 @@ FL7(self) == /\ pc[self] = "FL7"
              /\ lv' = [lv EXCEPT ![self] = 0]
              /\ snap' = [snap EXCEPT ![self] = <<>>]
              /\ pc' = [pc EXCEPT ![self] = "DStart"]
-             /\ UNCHANGED << st, nd, sk, pi, fi, tasks, now, obs, script, ntop, 
-                             panicked, done, ka, ca, gx, ex, nx, fx, bx, bc, 
-                             tx, ta, tc, ft, act, sj >>
+             /\ UNCHANGED << ci, st, nd, sk, pi, fi, tasks, now, obs, script, 
+                             ntop, panicked, done, ka, ca, gx, ex, nx, fx, bx, 
+                             bc, tx, ta, tc, ft, act, sj >>
 
 FL8(self) == /\ pc[self] = "FL8"
              /\ pc' = [pc EXCEPT ![self] = "Ret"]
-             /\ UNCHANGED << st, nd, sk, pi, fi, tasks, now, obs, script, ntop, 
-                             panicked, done, stack, fr, to, m, lg, sx, jx, ch, 
-                             lv, snap, ka, ca, gx, ex, nx, fx, bx, bc, tx, ta, 
-                             tc, ft, act, sj >>
+             /\ UNCHANGED << ci, st, nd, sk, pi, fi, tasks, now, obs, script, 
+                             ntop, panicked, done, stack, fr, to, m, lg, sx, 
+                             jx, ch, lv, snap, ka, ca, gx, ex, nx, fx, bx, bc, 
+                             tx, ta, tc, ft, act, sj >>
 
 FL9(self) == /\ pc[self] = "FL9"
              /\ pc' = [pc EXCEPT ![self] = "Ret"]
-             /\ UNCHANGED << st, nd, sk, pi, fi, tasks, now, obs, script, ntop, 
-                             panicked, done, stack, fr, to, m, lg, sx, jx, ch, 
-                             lv, snap, ka, ca, gx, ex, nx, fx, bx, bc, tx, ta, 
-                             tc, ft, act, sj >>
+             /\ UNCHANGED << ci, st, nd, sk, pi, fi, tasks, now, obs, script, 
+                             ntop, panicked, done, stack, fr, to, m, lg, sx, 
+                             jx, ch, lv, snap, ka, ca, gx, ex, nx, fx, bx, bc, 
+                             tx, ta, tc, ft, act, sj >>
 
 FL10(self) == /\ pc[self] = "FL10"
               /\ /\ fr' = [fr EXCEPT ![self] = "S"]
@@ -5256,20 +5311,20 @@ FL10(self) == /\ pc[self] = "FL10"
               /\ lv' = [lv EXCEPT ![self] = 0]
               /\ snap' = [snap EXCEPT ![self] = <<>>]
               /\ pc' = [pc EXCEPT ![self] = "DStart"]
-              /\ UNCHANGED << st, nd, sk, pi, fi, tasks, now, obs, script, 
+              /\ UNCHANGED << ci, st, nd, sk, pi, fi, tasks, now, obs, script, 
                               ntop, panicked, done, ka, ca, gx, ex, nx, fx, bx, 
                               bc, tx, ta, tc, ft, act, sj >>
 
 FL11(self) == /\ pc[self] = "FL11"
               /\ pc' = [pc EXCEPT ![self] = "Ret"]
-              /\ UNCHANGED << st, nd, sk, pi, fi, tasks, now, obs, script, 
+              /\ UNCHANGED << ci, st, nd, sk, pi, fi, tasks, now, obs, script, 
                               ntop, panicked, done, stack, fr, to, m, lg, sx, 
                               jx, ch, lv, snap, ka, ca, gx, ex, nx, fx, bx, bc, 
                               tx, ta, tc, ft, act, sj >>
 
 FL12(self) == /\ pc[self] = "FL12"
               /\ pc' = [pc EXCEPT ![self] = "Ret"]
-              /\ UNCHANGED << st, nd, sk, pi, fi, tasks, now, obs, script, 
+              /\ UNCHANGED << ci, st, nd, sk, pi, fi, tasks, now, obs, script, 
                               ntop, panicked, done, stack, fr, to, m, lg, sx, 
                               jx, ch, lv, snap, ka, ca, gx, ex, nx, fx, bx, bc, 
                               tx, ta, tc, ft, act, sj >>
@@ -5297,20 +5352,20 @@ FL13(self) == /\ pc[self] = "FL13"
               /\ lv' = [lv EXCEPT ![self] = 0]
               /\ snap' = [snap EXCEPT ![self] = <<>>]
               /\ pc' = [pc EXCEPT ![self] = "DStart"]
-              /\ UNCHANGED << st, nd, sk, pi, fi, tasks, now, obs, script, 
+              /\ UNCHANGED << ci, st, nd, sk, pi, fi, tasks, now, obs, script, 
                               ntop, panicked, done, ka, ca, gx, ex, nx, fx, bx, 
                               bc, tx, ta, tc, ft, act, sj >>
 
 FL14(self) == /\ pc[self] = "FL14"
               /\ pc' = [pc EXCEPT ![self] = "Ret"]
-              /\ UNCHANGED << st, nd, sk, pi, fi, tasks, now, obs, script, 
+              /\ UNCHANGED << ci, st, nd, sk, pi, fi, tasks, now, obs, script, 
                               ntop, panicked, done, stack, fr, to, m, lg, sx, 
                               jx, ch, lv, snap, ka, ca, gx, ex, nx, fx, bx, bc, 
                               tx, ta, tc, ft, act, sj >>
 
 FL16(self) == /\ pc[self] = "FL16"
               /\ pc' = [pc EXCEPT ![self] = "Ret"]
-              /\ UNCHANGED << st, nd, sk, pi, fi, tasks, now, obs, script, 
+              /\ UNCHANGED << ci, st, nd, sk, pi, fi, tasks, now, obs, script, 
                               ntop, panicked, done, stack, fr, to, m, lg, sx, 
                               jx, ch, lv, snap, ka, ca, gx, ex, nx, fx, bx, bc, 
                               tx, ta, tc, ft, act, sj >>
@@ -5338,13 +5393,13 @@ FL15(self) == /\ pc[self] = "FL15"
               /\ lv' = [lv EXCEPT ![self] = 0]
               /\ snap' = [snap EXCEPT ![self] = <<>>]
               /\ pc' = [pc EXCEPT ![self] = "DStart"]
-              /\ UNCHANGED << st, nd, sk, pi, fi, tasks, now, obs, script, 
+              /\ UNCHANGED << ci, st, nd, sk, pi, fi, tasks, now, obs, script, 
                               ntop, panicked, done, ka, ca, gx, ex, nx, fx, bx, 
                               bc, tx, ta, tc, ft, act, sj >>
 
 FL17(self) == /\ pc[self] = "FL17"
               /\ pc' = [pc EXCEPT ![self] = "Ret"]
-              /\ UNCHANGED << st, nd, sk, pi, fi, tasks, now, obs, script, 
+              /\ UNCHANGED << ci, st, nd, sk, pi, fi, tasks, now, obs, script, 
                               ntop, panicked, done, stack, fr, to, m, lg, sx, 
                               jx, ch, lv, snap, ka, ca, gx, ex, nx, fx, bx, bc, 
                               tx, ta, tc, ft, act, sj >>
@@ -5376,13 +5431,13 @@ FL18(self) == /\ pc[self] = "FL18"
                     ELSE /\ pc' = [pc EXCEPT ![self] = "FL19"]
                          /\ UNCHANGED << stack, fr, to, m, lg, sx, jx, ch, lv, 
                                          snap >>
-              /\ UNCHANGED << st, nd, sk, pi, fi, tasks, now, obs, script, 
+              /\ UNCHANGED << ci, st, nd, sk, pi, fi, tasks, now, obs, script, 
                               ntop, panicked, done, ka, ca, gx, ex, nx, fx, bx, 
                               bc, tx, ta, tc, ft, act, sj >>
 
 FL19(self) == /\ pc[self] = "FL19"
               /\ pc' = [pc EXCEPT ![self] = "Ret"]
-              /\ UNCHANGED << st, nd, sk, pi, fi, tasks, now, obs, script, 
+              /\ UNCHANGED << ci, st, nd, sk, pi, fi, tasks, now, obs, script, 
                               ntop, panicked, done, stack, fr, to, m, lg, sx, 
                               jx, ch, lv, snap, ka, ca, gx, ex, nx, fx, bx, bc, 
                               tx, ta, tc, ft, act, sj >>
@@ -5433,16 +5488,16 @@ SH1(self) == /\ pc[self] = "SH1"
                         /\ lv' = [lv EXCEPT ![self] = 0]
                         /\ snap' = [snap EXCEPT ![self] = <<>>]
                         /\ pc' = [pc EXCEPT ![self] = "DStart"]
-             /\ UNCHANGED << st, nd, sk, pi, fi, tasks, now, obs, script, ntop, 
-                             panicked, done, ka, ca, gx, ex, nx, fx, bx, bc, 
-                             tx, ta, tc, ft, act, sj >>
+             /\ UNCHANGED << ci, st, nd, sk, pi, fi, tasks, now, obs, script, 
+                             ntop, panicked, done, ka, ca, gx, ex, nx, fx, bx, 
+                             bc, tx, ta, tc, ft, act, sj >>
 
 SH2(self) == /\ pc[self] = "SH2"
              /\ pc' = [pc EXCEPT ![self] = "Ret"]
-             /\ UNCHANGED << st, nd, sk, pi, fi, tasks, now, obs, script, ntop, 
-                             panicked, done, stack, fr, to, m, lg, sx, jx, ch, 
-                             lv, snap, ka, ca, gx, ex, nx, fx, bx, bc, tx, ta, 
-                             tc, ft, act, sj >>
+             /\ UNCHANGED << ci, st, nd, sk, pi, fi, tasks, now, obs, script, 
+                             ntop, panicked, done, stack, fr, to, m, lg, sx, 
+                             jx, ch, lv, snap, ka, ca, gx, ex, nx, fx, bx, bc, 
+                             tx, ta, tc, ft, act, sj >>
 
 SH3(self) == /\ pc[self] = "SH3"
              /\ /\ fr' = [fr EXCEPT ![self] = "S"]
@@ -5467,16 +5522,16 @@ SH3(self) == /\ pc[self] = "SH3"
              /\ lv' = [lv EXCEPT ![self] = 0]
              /\ snap' = [snap EXCEPT ![self] = <<>>]
              /\ pc' = [pc EXCEPT ![self] = "DStart"]
-             /\ UNCHANGED << st, nd, sk, pi, fi, tasks, now, obs, script, ntop, 
-                             panicked, done, ka, ca, gx, ex, nx, fx, bx, bc, 
-                             tx, ta, tc, ft, act, sj >>
+             /\ UNCHANGED << ci, st, nd, sk, pi, fi, tasks, now, obs, script, 
+                             ntop, panicked, done, ka, ca, gx, ex, nx, fx, bx, 
+                             bc, tx, ta, tc, ft, act, sj >>
 
 SH4(self) == /\ pc[self] = "SH4"
              /\ pc' = [pc EXCEPT ![self] = "Ret"]
-             /\ UNCHANGED << st, nd, sk, pi, fi, tasks, now, obs, script, ntop, 
-                             panicked, done, stack, fr, to, m, lg, sx, jx, ch, 
-                             lv, snap, ka, ca, gx, ex, nx, fx, bx, bc, tx, ta, 
-                             tc, ft, act, sj >>
+             /\ UNCHANGED << ci, st, nd, sk, pi, fi, tasks, now, obs, script, 
+                             ntop, panicked, done, stack, fr, to, m, lg, sx, 
+                             jx, ch, lv, snap, ka, ca, gx, ex, nx, fx, bx, bc, 
+                             tx, ta, tc, ft, act, sj >>
 
 SH5(self) == /\ pc[self] = "SH5"
              /\ IF jx[self] <= Len(snap[self])
@@ -5510,31 +5565,31 @@ SH5(self) == /\ pc[self] = "SH5"
                         /\ pc' = [pc EXCEPT ![self] = "SH7"]
                         /\ UNCHANGED << stack, fr, to, m, lg, sx, jx, ch, lv, 
                                         snap >>
-             /\ UNCHANGED << st, sk, pi, fi, tasks, now, obs, script, ntop, 
+             /\ UNCHANGED << ci, st, sk, pi, fi, tasks, now, obs, script, ntop, 
                              panicked, done, ka, ca, gx, ex, nx, fx, bx, bc, 
                              tx, ta, tc, ft, act, sj >>
 
 SH6(self) == /\ pc[self] = "SH6"
              /\ jx' = [jx EXCEPT ![self] = jx[self] + 1]
              /\ pc' = [pc EXCEPT ![self] = "SH5"]
-             /\ UNCHANGED << st, nd, sk, pi, fi, tasks, now, obs, script, ntop, 
-                             panicked, done, stack, fr, to, m, lg, sx, ch, lv, 
-                             snap, ka, ca, gx, ex, nx, fx, bx, bc, tx, ta, tc, 
-                             ft, act, sj >>
+             /\ UNCHANGED << ci, st, nd, sk, pi, fi, tasks, now, obs, script, 
+                             ntop, panicked, done, stack, fr, to, m, lg, sx, 
+                             ch, lv, snap, ka, ca, gx, ex, nx, fx, bx, bc, tx, 
+                             ta, tc, ft, act, sj >>
 
 SH7(self) == /\ pc[self] = "SH7"
              /\ pc' = [pc EXCEPT ![self] = "Ret"]
-             /\ UNCHANGED << st, nd, sk, pi, fi, tasks, now, obs, script, ntop, 
-                             panicked, done, stack, fr, to, m, lg, sx, jx, ch, 
-                             lv, snap, ka, ca, gx, ex, nx, fx, bx, bc, tx, ta, 
-                             tc, ft, act, sj >>
+             /\ UNCHANGED << ci, st, nd, sk, pi, fi, tasks, now, obs, script, 
+                             ntop, panicked, done, stack, fr, to, m, lg, sx, 
+                             jx, ch, lv, snap, ka, ca, gx, ex, nx, fx, bx, bc, 
+                             tx, ta, tc, ft, act, sj >>
 
 SH8(self) == /\ pc[self] = "SH8"
              /\ pc' = [pc EXCEPT ![self] = "Ret"]
-             /\ UNCHANGED << st, nd, sk, pi, fi, tasks, now, obs, script, ntop, 
-                             panicked, done, stack, fr, to, m, lg, sx, jx, ch, 
-                             lv, snap, ka, ca, gx, ex, nx, fx, bx, bc, tx, ta, 
-                             tc, ft, act, sj >>
+             /\ UNCHANGED << ci, st, nd, sk, pi, fi, tasks, now, obs, script, 
+                             ntop, panicked, done, stack, fr, to, m, lg, sx, 
+                             jx, ch, lv, snap, ka, ca, gx, ex, nx, fx, bx, bc, 
+                             tx, ta, tc, ft, act, sj >>
 
 SH9(self) == /\ pc[self] = "SH9"
              /\ IF Len(nd[to[self].n].sinks) = 0
@@ -5571,13 +5626,13 @@ SH9(self) == /\ pc[self] = "SH9"
                    ELSE /\ pc' = [pc EXCEPT ![self] = "SH10"]
                         /\ UNCHANGED << obs, panicked, stack, fr, to, m, lg, 
                                         sx, jx, ch, lv, snap >>
-             /\ UNCHANGED << st, nd, sk, pi, fi, tasks, now, script, ntop, 
+             /\ UNCHANGED << ci, st, nd, sk, pi, fi, tasks, now, script, ntop, 
                              done, ka, ca, gx, ex, nx, fx, bx, bc, tx, ta, tc, 
                              ft, act, sj >>
 
 SH10(self) == /\ pc[self] = "SH10"
               /\ pc' = [pc EXCEPT ![self] = "Ret"]
-              /\ UNCHANGED << st, nd, sk, pi, fi, tasks, now, obs, script, 
+              /\ UNCHANGED << ci, st, nd, sk, pi, fi, tasks, now, obs, script, 
                               ntop, panicked, done, stack, fr, to, m, lg, sx, 
                               jx, ch, lv, snap, ka, ca, gx, ex, nx, fx, bx, bc, 
                               tx, ta, tc, ft, act, sj >>
@@ -5628,16 +5683,16 @@ IV1(self) == /\ pc[self] = "IV1"
                         /\ lv' = [lv EXCEPT ![self] = 0]
                         /\ snap' = [snap EXCEPT ![self] = <<>>]
                         /\ pc' = [pc EXCEPT ![self] = "DStart"]
-             /\ UNCHANGED << st, nd, sk, pi, fi, tasks, now, obs, script, ntop, 
-                             panicked, done, ka, ca, gx, ex, nx, fx, bx, bc, 
-                             tx, ta, tc, ft, act, sj >>
+             /\ UNCHANGED << ci, st, nd, sk, pi, fi, tasks, now, obs, script, 
+                             ntop, panicked, done, ka, ca, gx, ex, nx, fx, bx, 
+                             bc, tx, ta, tc, ft, act, sj >>
 
 IV2(self) == /\ pc[self] = "IV2"
              /\ pc' = [pc EXCEPT ![self] = "Ret"]
-             /\ UNCHANGED << st, nd, sk, pi, fi, tasks, now, obs, script, ntop, 
-                             panicked, done, stack, fr, to, m, lg, sx, jx, ch, 
-                             lv, snap, ka, ca, gx, ex, nx, fx, bx, bc, tx, ta, 
-                             tc, ft, act, sj >>
+             /\ UNCHANGED << ci, st, nd, sk, pi, fi, tasks, now, obs, script, 
+                             ntop, panicked, done, stack, fr, to, m, lg, sx, 
+                             jx, ch, lv, snap, ka, ca, gx, ex, nx, fx, bx, bc, 
+                             tx, ta, tc, ft, act, sj >>
 
 Ret(self) == /\ pc[self] = "Ret"
              /\ IF lg[self]
@@ -5655,14 +5710,14 @@ Ret(self) == /\ pc[self] = "Ret"
              /\ to' = [to EXCEPT ![self] = Head(stack[self]).to]
              /\ m' = [m EXCEPT ![self] = Head(stack[self]).m]
              /\ stack' = [stack EXCEPT ![self] = Tail(stack[self])]
-             /\ UNCHANGED << st, nd, sk, pi, fi, tasks, now, script, ntop, 
+             /\ UNCHANGED << ci, st, nd, sk, pi, fi, tasks, now, script, ntop, 
                              panicked, done, ka, ca, gx, ex, nx, fx, bx, bc, 
                              tx, ta, tc, ft, act, sj >>
 
 Halt(self) == /\ pc[self] = "Halt"
               /\ FALSE
               /\ pc' = [pc EXCEPT ![self] = "Error"]
-              /\ UNCHANGED << st, nd, sk, pi, fi, tasks, now, obs, script, 
+              /\ UNCHANGED << ci, st, nd, sk, pi, fi, tasks, now, obs, script, 
                               ntop, panicked, done, stack, fr, to, m, lg, sx, 
                               jx, ch, lv, snap, ka, ca, gx, ex, nx, fx, bx, bc, 
                               tx, ta, tc, ft, act, sj >>
@@ -5790,7 +5845,7 @@ SA0(self) == /\ pc[self] = "SA0"
                                               /\ UNCHANGED << sk, stack, fr, 
                                                               to, m, lg, sx, 
                                                               jx, ch, lv, snap >>
-             /\ UNCHANGED << st, nd, pi, fi, tasks, now, obs, script, ntop, 
+             /\ UNCHANGED << ci, st, nd, pi, fi, tasks, now, obs, script, ntop, 
                              panicked, done, ka, ca, gx, ex, nx, fx, bx, bc, 
                              tx, ta, tc, ft, act, sj >>
 
@@ -5799,10 +5854,10 @@ SA1(self) == /\ pc[self] = "SA1"
              /\ ka' = [ka EXCEPT ![self] = Head(stack[self]).ka]
              /\ ca' = [ca EXCEPT ![self] = Head(stack[self]).ca]
              /\ stack' = [stack EXCEPT ![self] = Tail(stack[self])]
-             /\ UNCHANGED << st, nd, sk, pi, fi, tasks, now, obs, script, ntop, 
-                             panicked, done, fr, to, m, lg, sx, jx, ch, lv, 
-                             snap, gx, ex, nx, fx, bx, bc, tx, ta, tc, ft, act, 
-                             sj >>
+             /\ UNCHANGED << ci, st, nd, sk, pi, fi, tasks, now, obs, script, 
+                             ntop, panicked, done, fr, to, m, lg, sx, jx, ch, 
+                             lv, snap, gx, ex, nx, fx, bx, bc, tx, ta, tc, ft, 
+                             act, sj >>
 
 SinkAct(self) == SA0(self) \/ SA1(self)
 
@@ -5830,7 +5885,7 @@ G0(self) == /\ pc[self] = "G0"
             /\ lv' = [lv EXCEPT ![self] = 0]
             /\ snap' = [snap EXCEPT ![self] = <<>>]
             /\ pc' = [pc EXCEPT ![self] = "DStart"]
-            /\ UNCHANGED << st, nd, sk, fi, tasks, now, obs, script, ntop, 
+            /\ UNCHANGED << ci, st, nd, sk, fi, tasks, now, obs, script, ntop, 
                             panicked, done, ka, ca, gx, ex, nx, fx, bx, bc, tx, 
                             ta, tc, ft, act, sj >>
 
@@ -5838,10 +5893,10 @@ G1(self) == /\ pc[self] = "G1"
             /\ pc' = [pc EXCEPT ![self] = Head(stack[self]).pc]
             /\ gx' = [gx EXCEPT ![self] = Head(stack[self]).gx]
             /\ stack' = [stack EXCEPT ![self] = Tail(stack[self])]
-            /\ UNCHANGED << st, nd, sk, pi, fi, tasks, now, obs, script, ntop, 
-                            panicked, done, fr, to, m, lg, sx, jx, ch, lv, 
-                            snap, ka, ca, ex, nx, fx, bx, bc, tx, ta, tc, ft, 
-                            act, sj >>
+            /\ UNCHANGED << ci, st, nd, sk, pi, fi, tasks, now, obs, script, 
+                            ntop, panicked, done, fr, to, m, lg, sx, jx, ch, 
+                            lv, snap, ka, ca, ex, nx, fx, bx, bc, tx, ta, tc, 
+                            ft, act, sj >>
 
 Greet(self) == G0(self) \/ G1(self)
 
@@ -5871,7 +5926,7 @@ E0(self) == /\ pc[self] = "E0"
             /\ lv' = [lv EXCEPT ![self] = 0]
             /\ snap' = [snap EXCEPT ![self] = <<>>]
             /\ pc' = [pc EXCEPT ![self] = "DStart"]
-            /\ UNCHANGED << st, nd, sk, fi, tasks, now, obs, script, ntop, 
+            /\ UNCHANGED << ci, st, nd, sk, fi, tasks, now, obs, script, ntop, 
                             panicked, done, ka, ca, gx, ex, nx, fx, bx, bc, tx, 
                             ta, tc, ft, act, sj >>
 
@@ -5879,10 +5934,10 @@ E1(self) == /\ pc[self] = "E1"
             /\ pc' = [pc EXCEPT ![self] = Head(stack[self]).pc]
             /\ ex' = [ex EXCEPT ![self] = Head(stack[self]).ex]
             /\ stack' = [stack EXCEPT ![self] = Tail(stack[self])]
-            /\ UNCHANGED << st, nd, sk, pi, fi, tasks, now, obs, script, ntop, 
-                            panicked, done, fr, to, m, lg, sx, jx, ch, lv, 
-                            snap, ka, ca, gx, nx, fx, bx, bc, tx, ta, tc, ft, 
-                            act, sj >>
+            /\ UNCHANGED << ci, st, nd, sk, pi, fi, tasks, now, obs, script, 
+                            ntop, panicked, done, fr, to, m, lg, sx, jx, ch, 
+                            lv, snap, ka, ca, gx, nx, fx, bx, bc, tx, ta, tc, 
+                            ft, act, sj >>
 
 Emit(self) == E0(self) \/ E1(self)
 
@@ -5910,7 +5965,7 @@ N0(self) == /\ pc[self] = "N0"
             /\ lv' = [lv EXCEPT ![self] = 0]
             /\ snap' = [snap EXCEPT ![self] = <<>>]
             /\ pc' = [pc EXCEPT ![self] = "DStart"]
-            /\ UNCHANGED << st, nd, sk, fi, tasks, now, obs, script, ntop, 
+            /\ UNCHANGED << ci, st, nd, sk, fi, tasks, now, obs, script, ntop, 
                             panicked, done, ka, ca, gx, ex, nx, fx, bx, bc, tx, 
                             ta, tc, ft, act, sj >>
 
@@ -5918,10 +5973,10 @@ N1(self) == /\ pc[self] = "N1"
             /\ pc' = [pc EXCEPT ![self] = Head(stack[self]).pc]
             /\ nx' = [nx EXCEPT ![self] = Head(stack[self]).nx]
             /\ stack' = [stack EXCEPT ![self] = Tail(stack[self])]
-            /\ UNCHANGED << st, nd, sk, pi, fi, tasks, now, obs, script, ntop, 
-                            panicked, done, fr, to, m, lg, sx, jx, ch, lv, 
-                            snap, ka, ca, gx, ex, fx, bx, bc, tx, ta, tc, ft, 
-                            act, sj >>
+            /\ UNCHANGED << ci, st, nd, sk, pi, fi, tasks, now, obs, script, 
+                            ntop, panicked, done, fr, to, m, lg, sx, jx, ch, 
+                            lv, snap, ka, ca, gx, ex, fx, bx, bc, tx, ta, tc, 
+                            ft, act, sj >>
 
 EndP(self) == N0(self) \/ N1(self)
 
@@ -5949,7 +6004,7 @@ F0(self) == /\ pc[self] = "F0"
             /\ lv' = [lv EXCEPT ![self] = 0]
             /\ snap' = [snap EXCEPT ![self] = <<>>]
             /\ pc' = [pc EXCEPT ![self] = "DStart"]
-            /\ UNCHANGED << st, nd, sk, fi, tasks, now, obs, script, ntop, 
+            /\ UNCHANGED << ci, st, nd, sk, fi, tasks, now, obs, script, ntop, 
                             panicked, done, ka, ca, gx, ex, nx, fx, bx, bc, tx, 
                             ta, tc, ft, act, sj >>
 
@@ -5957,10 +6012,10 @@ F1(self) == /\ pc[self] = "F1"
             /\ pc' = [pc EXCEPT ![self] = Head(stack[self]).pc]
             /\ fx' = [fx EXCEPT ![self] = Head(stack[self]).fx]
             /\ stack' = [stack EXCEPT ![self] = Tail(stack[self])]
-            /\ UNCHANGED << st, nd, sk, pi, fi, tasks, now, obs, script, ntop, 
-                            panicked, done, fr, to, m, lg, sx, jx, ch, lv, 
-                            snap, ka, ca, gx, ex, nx, bx, bc, tx, ta, tc, ft, 
-                            act, sj >>
+            /\ UNCHANGED << ci, st, nd, sk, pi, fi, tasks, now, obs, script, 
+                            ntop, panicked, done, fr, to, m, lg, sx, jx, ch, 
+                            lv, snap, ka, ca, gx, ex, nx, bx, bc, tx, ta, tc, 
+                            ft, act, sj >>
 
 FailP(self) == F0(self) \/ F1(self)
 
@@ -5972,7 +6027,7 @@ B0(self) == /\ pc[self] = "B0"
                        /\ pc' = [pc EXCEPT ![self] = "B1"]
                   ELSE /\ pc' = [pc EXCEPT ![self] = "B4"]
                        /\ UNCHANGED << script, bc >>
-            /\ UNCHANGED << st, nd, sk, pi, fi, tasks, now, obs, ntop, 
+            /\ UNCHANGED << ci, st, nd, sk, pi, fi, tasks, now, obs, ntop, 
                             panicked, done, stack, fr, to, m, lg, sx, jx, ch, 
                             lv, snap, ka, ca, gx, ex, nx, fx, bx, tx, ta, tc, 
                             ft, act, sj >>
@@ -6009,39 +6064,39 @@ B1(self) == /\ pc[self] = "B1"
                                              /\ fx' = fx
                                   /\ nx' = nx
                        /\ ex' = ex
-            /\ UNCHANGED << st, nd, sk, pi, fi, tasks, now, obs, script, ntop, 
-                            panicked, done, fr, to, m, lg, sx, jx, ch, lv, 
-                            snap, ka, ca, gx, tx, ta, tc, ft, act, sj >>
+            /\ UNCHANGED << ci, st, nd, sk, pi, fi, tasks, now, obs, script, 
+                            ntop, panicked, done, fr, to, m, lg, sx, jx, ch, 
+                            lv, snap, ka, ca, gx, tx, ta, tc, ft, act, sj >>
 
 B2(self) == /\ pc[self] = "B2"
             /\ pc' = [pc EXCEPT ![self] = Head(stack[self]).pc]
             /\ bc' = [bc EXCEPT ![self] = Head(stack[self]).bc]
             /\ bx' = [bx EXCEPT ![self] = Head(stack[self]).bx]
             /\ stack' = [stack EXCEPT ![self] = Tail(stack[self])]
-            /\ UNCHANGED << st, nd, sk, pi, fi, tasks, now, obs, script, ntop, 
-                            panicked, done, fr, to, m, lg, sx, jx, ch, lv, 
-                            snap, ka, ca, gx, ex, nx, fx, tx, ta, tc, ft, act, 
-                            sj >>
+            /\ UNCHANGED << ci, st, nd, sk, pi, fi, tasks, now, obs, script, 
+                            ntop, panicked, done, fr, to, m, lg, sx, jx, ch, 
+                            lv, snap, ka, ca, gx, ex, nx, fx, tx, ta, tc, ft, 
+                            act, sj >>
 
 B3(self) == /\ pc[self] = "B3"
             /\ pc' = [pc EXCEPT ![self] = Head(stack[self]).pc]
             /\ bc' = [bc EXCEPT ![self] = Head(stack[self]).bc]
             /\ bx' = [bx EXCEPT ![self] = Head(stack[self]).bx]
             /\ stack' = [stack EXCEPT ![self] = Tail(stack[self])]
-            /\ UNCHANGED << st, nd, sk, pi, fi, tasks, now, obs, script, ntop, 
-                            panicked, done, fr, to, m, lg, sx, jx, ch, lv, 
-                            snap, ka, ca, gx, ex, nx, fx, tx, ta, tc, ft, act, 
-                            sj >>
+            /\ UNCHANGED << ci, st, nd, sk, pi, fi, tasks, now, obs, script, 
+                            ntop, panicked, done, fr, to, m, lg, sx, jx, ch, 
+                            lv, snap, ka, ca, gx, ex, nx, fx, tx, ta, tc, ft, 
+                            act, sj >>
 
 B4(self) == /\ pc[self] = "B4"
             /\ pc' = [pc EXCEPT ![self] = Head(stack[self]).pc]
             /\ bc' = [bc EXCEPT ![self] = Head(stack[self]).bc]
             /\ bx' = [bx EXCEPT ![self] = Head(stack[self]).bx]
             /\ stack' = [stack EXCEPT ![self] = Tail(stack[self])]
-            /\ UNCHANGED << st, nd, sk, pi, fi, tasks, now, obs, script, ntop, 
-                            panicked, done, fr, to, m, lg, sx, jx, ch, lv, 
-                            snap, ka, ca, gx, ex, nx, fx, tx, ta, tc, ft, act, 
-                            sj >>
+            /\ UNCHANGED << ci, st, nd, sk, pi, fi, tasks, now, obs, script, 
+                            ntop, panicked, done, fr, to, m, lg, sx, jx, ch, 
+                            lv, snap, ka, ca, gx, ex, nx, fx, tx, ta, tc, ft, 
+                            act, sj >>
 
 Burst(self) == B0(self) \/ B1(self) \/ B2(self) \/ B3(self) \/ B4(self)
 
@@ -6096,9 +6151,9 @@ PT0(self) == /\ pc[self] = "PT0"
                                               /\ nx' = nx
                                    /\ ex' = ex
                         /\ gx' = gx
-             /\ UNCHANGED << st, nd, sk, fi, tasks, now, obs, ntop, panicked, 
-                             done, fr, to, m, lg, sx, jx, ch, lv, snap, ka, ca, 
-                             bx, bc, tx, ta, ft, act, sj >>
+             /\ UNCHANGED << ci, st, nd, sk, fi, tasks, now, obs, ntop, 
+                             panicked, done, fr, to, m, lg, sx, jx, ch, lv, 
+                             snap, ka, ca, bx, bc, tx, ta, ft, act, sj >>
 
 PT1(self) == /\ pc[self] = "PT1"
              /\ /\ bx' = [bx EXCEPT ![self] = tx[self]]
@@ -6109,10 +6164,10 @@ PT1(self) == /\ pc[self] = "PT1"
                                                      \o stack[self]]
              /\ bc' = [bc EXCEPT ![self] = ""]
              /\ pc' = [pc EXCEPT ![self] = "B0"]
-             /\ UNCHANGED << st, nd, sk, pi, fi, tasks, now, obs, script, ntop, 
-                             panicked, done, fr, to, m, lg, sx, jx, ch, lv, 
-                             snap, ka, ca, gx, ex, nx, fx, tx, ta, tc, ft, act, 
-                             sj >>
+             /\ UNCHANGED << ci, st, nd, sk, pi, fi, tasks, now, obs, script, 
+                             ntop, panicked, done, fr, to, m, lg, sx, jx, ch, 
+                             lv, snap, ka, ca, gx, ex, nx, fx, tx, ta, tc, ft, 
+                             act, sj >>
 
 PT2(self) == /\ pc[self] = "PT2"
              /\ IF tc[self] = "data"
@@ -6139,9 +6194,10 @@ PT2(self) == /\ pc[self] = "PT2"
                                    /\ pc' = [pc EXCEPT ![self] = "F0"]
                                    /\ nx' = nx
                         /\ ex' = ex
-             /\ UNCHANGED << st, nd, sk, pi, fi, tasks, now, obs, script, ntop, 
-                             panicked, done, fr, to, m, lg, sx, jx, ch, lv, 
-                             snap, ka, ca, gx, bx, bc, tx, ta, tc, ft, act, sj >>
+             /\ UNCHANGED << ci, st, nd, sk, pi, fi, tasks, now, obs, script, 
+                             ntop, panicked, done, fr, to, m, lg, sx, jx, ch, 
+                             lv, snap, ka, ca, gx, bx, bc, tx, ta, tc, ft, act, 
+                             sj >>
 
 PT3(self) == /\ pc[self] = "PT3"
              /\ pc' = [pc EXCEPT ![self] = Head(stack[self]).pc]
@@ -6149,9 +6205,10 @@ PT3(self) == /\ pc[self] = "PT3"
              /\ tx' = [tx EXCEPT ![self] = Head(stack[self]).tx]
              /\ ta' = [ta EXCEPT ![self] = Head(stack[self]).ta]
              /\ stack' = [stack EXCEPT ![self] = Tail(stack[self])]
-             /\ UNCHANGED << st, nd, sk, pi, fi, tasks, now, obs, script, ntop, 
-                             panicked, done, fr, to, m, lg, sx, jx, ch, lv, 
-                             snap, ka, ca, gx, ex, nx, fx, bx, bc, ft, act, sj >>
+             /\ UNCHANGED << ci, st, nd, sk, pi, fi, tasks, now, obs, script, 
+                             ntop, panicked, done, fr, to, m, lg, sx, jx, ch, 
+                             lv, snap, ka, ca, gx, ex, nx, fx, bx, bc, ft, act, 
+                             sj >>
 
 PupTop(self) == PT0(self) \/ PT1(self) \/ PT2(self) \/ PT3(self)
 
@@ -6159,10 +6216,10 @@ FT0(self) == /\ pc[self] = "FT0"
              /\ now' = tasks[ft[self]].deadline
              /\ tasks' = [tasks EXCEPT ![ft[self]].armed = FALSE]
              /\ pc' = [pc EXCEPT ![self] = "FT1"]
-             /\ UNCHANGED << st, nd, sk, pi, fi, obs, script, ntop, panicked, 
-                             done, stack, fr, to, m, lg, sx, jx, ch, lv, snap, 
-                             ka, ca, gx, ex, nx, fx, bx, bc, tx, ta, tc, ft, 
-                             act, sj >>
+             /\ UNCHANGED << ci, st, nd, sk, pi, fi, obs, script, ntop, 
+                             panicked, done, stack, fr, to, m, lg, sx, jx, ch, 
+                             lv, snap, ka, ca, gx, ex, nx, fx, bx, bc, tx, ta, 
+                             tc, ft, act, sj >>
 
 FT1(self) == /\ pc[self] = "FT1"
              /\ IF st[tasks[ft[self]].node][tasks[ft[self]].sub].cleared
@@ -6197,9 +6254,9 @@ FT1(self) == /\ pc[self] = "FT1"
                         /\ snap' = [snap EXCEPT ![self] = <<>>]
                         /\ pc' = [pc EXCEPT ![self] = "DStart"]
                         /\ UNCHANGED << tasks, obs, ft >>
-             /\ UNCHANGED << nd, sk, pi, fi, now, script, ntop, panicked, done, 
-                             ka, ca, gx, ex, nx, fx, bx, bc, tx, ta, tc, act, 
-                             sj >>
+             /\ UNCHANGED << ci, nd, sk, pi, fi, now, script, ntop, panicked, 
+                             done, ka, ca, gx, ex, nx, fx, bx, bc, tx, ta, tc, 
+                             act, sj >>
 
 FT2(self) == /\ pc[self] = "FT2"
              /\ obs' = LogO(obs, Ev("sleep", ThOf(self), "", TName(ft[self]), "", Node(tasks[ft[self]].node).period))
@@ -6207,9 +6264,10 @@ FT2(self) == /\ pc[self] = "FT2"
              /\ pc' = [pc EXCEPT ![self] = Head(stack[self]).pc]
              /\ ft' = [ft EXCEPT ![self] = Head(stack[self]).ft]
              /\ stack' = [stack EXCEPT ![self] = Tail(stack[self])]
-             /\ UNCHANGED << st, nd, sk, pi, fi, now, script, ntop, panicked, 
-                             done, fr, to, m, lg, sx, jx, ch, lv, snap, ka, ca, 
-                             gx, ex, nx, fx, bx, bc, tx, ta, tc, act, sj >>
+             /\ UNCHANGED << ci, st, nd, sk, pi, fi, now, script, ntop, 
+                             panicked, done, fr, to, m, lg, sx, jx, ch, lv, 
+                             snap, ka, ca, gx, ex, nx, fx, bx, bc, tx, ta, tc, 
+                             act, sj >>
 
 Fire(self) == FT0(self) \/ FT1(self) \/ FT2(self)
 
@@ -6221,7 +6279,7 @@ M0 == /\ pc[0] = "M0"
                  /\ pc' = [pc EXCEPT ![0] = "M1"]
             ELSE /\ pc' = [pc EXCEPT ![0] = "MDone"]
                  /\ UNCHANGED << script, act >>
-      /\ UNCHANGED << st, nd, sk, pi, fi, tasks, now, obs, ntop, panicked, 
+      /\ UNCHANGED << ci, st, nd, sk, pi, fi, tasks, now, obs, ntop, panicked, 
                       done, stack, fr, to, m, lg, sx, jx, ch, lv, snap, ka, ca, 
                       gx, ex, nx, fx, bx, bc, tx, ta, tc, ft, sj >>
 
@@ -6232,9 +6290,9 @@ M1 == /\ pc[0] = "M1"
             ELSE /\ ntop' = ntop + 1
                  /\ obs' = LogO(obs, Ev("top", 0, "", act[1], act[2], 0))
                  /\ pc' = [pc EXCEPT ![0] = "M2"]
-      /\ UNCHANGED << st, nd, sk, pi, fi, tasks, now, script, panicked, done, 
-                      stack, fr, to, m, lg, sx, jx, ch, lv, snap, ka, ca, gx, 
-                      ex, nx, fx, bx, bc, tx, ta, tc, ft, act, sj >>
+      /\ UNCHANGED << ci, st, nd, sk, pi, fi, tasks, now, script, panicked, 
+                      done, stack, fr, to, m, lg, sx, jx, ch, lv, snap, ka, ca, 
+                      gx, ex, nx, fx, bx, bc, tx, ta, tc, ft, act, sj >>
 
 M2 == /\ pc[0] = "M2"
       /\ IF act[2] = "attach"
@@ -6316,13 +6374,13 @@ M2 == /\ pc[0] = "M2"
                                        /\ UNCHANGED << ka, ca >>
                             /\ ft' = ft
                  /\ UNCHANGED << sk, fr, to, m, lg, sx, jx, ch, lv, snap >>
-      /\ UNCHANGED << st, nd, pi, fi, tasks, now, obs, script, ntop, panicked, 
-                      done, gx, ex, nx, fx, bx, bc, act, sj >>
+      /\ UNCHANGED << ci, st, nd, pi, fi, tasks, now, obs, script, ntop, 
+                      panicked, done, gx, ex, nx, fx, bx, bc, act, sj >>
 
 M3 == /\ pc[0] = "M3"
       /\ sj' = 1
       /\ pc' = [pc EXCEPT ![0] = "M4"]
-      /\ UNCHANGED << st, nd, sk, pi, fi, tasks, now, obs, script, ntop, 
+      /\ UNCHANGED << ci, st, nd, sk, pi, fi, tasks, now, obs, script, ntop, 
                       panicked, done, stack, fr, to, m, lg, sx, jx, ch, lv, 
                       snap, ka, ca, gx, ex, nx, fx, bx, bc, tx, ta, tc, ft, 
                       act >>
@@ -6339,14 +6397,14 @@ M4 == /\ pc[0] = "M4"
                  /\ pc' = [pc EXCEPT ![0] = "M4"]
             ELSE /\ pc' = [pc EXCEPT ![0] = "M0"]
                  /\ UNCHANGED << tasks, obs, sj >>
-      /\ UNCHANGED << st, nd, sk, pi, fi, now, script, ntop, panicked, done, 
-                      stack, fr, to, m, lg, sx, jx, ch, lv, snap, ka, ca, gx, 
-                      ex, nx, fx, bx, bc, tx, ta, tc, ft, act >>
+      /\ UNCHANGED << ci, st, nd, sk, pi, fi, now, script, ntop, panicked, 
+                      done, stack, fr, to, m, lg, sx, jx, ch, lv, snap, ka, ca, 
+                      gx, ex, nx, fx, bx, bc, tx, ta, tc, ft, act >>
 
 MDone == /\ pc[0] = "MDone"
          /\ done' = TRUE
          /\ pc' = [pc EXCEPT ![0] = "Done"]
-         /\ UNCHANGED << st, nd, sk, pi, fi, tasks, now, obs, script, ntop, 
+         /\ UNCHANGED << ci, st, nd, sk, pi, fi, tasks, now, obs, script, ntop, 
                          panicked, stack, fr, to, m, lg, sx, jx, ch, lv, snap, 
                          ka, ca, gx, ex, nx, fx, bx, bc, tx, ta, tc, ft, act, 
                          sj >>
